@@ -24,30 +24,27 @@ def cur (cfg : Cfg) (tr : List (Req × Ans)) : St := tr.foldr (fun x s => step c
 theorem run_reverse (cfg : Cfg) (t : List (Req × Ans)) : run cfg t.reverse = cur cfg t := by
   simp [run, cur, List.foldl_reverse]
 
-/-- requests that never move the C13 monitor while no cancellation has been seen -/
+/-- requests whose *answer* (unless it raises a cancellation-type exception) never moves the monitor -/
 def inertK : Kind → Bool
   | .abortIf | .op | .sleeper => false
   | _ => true
 
-/-- breaker bookkeeping: never moves the monitor, not even after a cancellation -/
+/-- breaker bookkeeping: never moves the monitor -/
 def brkK : Kind → Bool
   | .breakerSuccess | .breakerFailure | .breakerCancel => true
   | _ => false
 
-theorem step_inert (cfg : Cfg) (s : St) (x : Req × Ans) (h : inertK x.1.kind = true)
-    (hc : s.cancelled = none) : step cfg s x = s := by
-  obtain ⟨r, a⟩ := x
-  cases r <;> simp_all [inertK, Req.kind, step]
+theorem isRecord_of_brk (r : Req) (h : brkK r.kind = true) : isRecord r = true := by
+  cases r <;> simp_all [brkK, Req.kind, isRecord]
 
-theorem step_inert_cancelled (cfg : Cfg) (s : St) (x : Req × Ans) (h : inertK x.1.kind = true) :
-    (step cfg s x).cancelled = s.cancelled := by
-  obtain ⟨r, a⟩ := x
-  cases r <;> simp_all [inertK, Req.kind, step] <;> (split <;> simp_all)
+theorem isRecord_inert (r : Req) (h : isRecord r = true) : inertK r.kind = true := by
+  cases r <;> simp_all [inertK, Req.kind, isRecord]
+
+theorem step_record (cfg : Cfg) (s : St) (x : Req × Ans) (h : isRecord x.1 = true) : step cfg s x = s := by
+  simp [step, h]
 
 theorem step_brk (cfg : Cfg) (s : St) (x : Req × Ans) (h : brkK x.1.kind = true) :
-    step cfg s x = s := by
-  obtain ⟨r, a⟩ := x
-  cases r <;> simp_all [brkK, Req.kind, step] <;> (split <;> simp_all)
+    step cfg s x = s := step_record cfg s x (isRecord_of_brk _ h)
 
 theorem cur_append_brk (cfg : Cfg) (δ t : List (Req × Ans)) (h : ∀ x ∈ δ, brkK x.1.kind = true) :
     cur cfg (δ ++ t) = cur cfg t := by
@@ -58,29 +55,33 @@ theorem cur_append_brk (cfg : Cfg) (δ t : List (Req × Ans)) (h : ∀ x ∈ δ,
     have := ih (fun y hy => h y (by simp [hy]))
     simp [step_brk _ _ _ hx, this]
 
-theorem cur_append_inert (cfg : Cfg) (δ t : List (Req × Ans)) (h : ∀ x ∈ δ, inertK x.1.kind = true)
-    (hc : (cur cfg t).cancelled = none) : cur cfg (δ ++ t) = cur cfg t := by
-  induction δ with
-  | nil => rfl
-  | cons x δ ih =>
-    have hx := h x (by simp)
-    have := ih (fun y hy => h y (by simp [hy]))
-    simp only [List.cons_append, cur_cons, this]
-    exact step_inert _ _ _ hx hc
+/-- a cancellation-type exception in the answer marks the monitor -/
+def cancelMark (s : St) (a : Ans) : St :=
+  match a with
+  | .raise e _ => if e.isCancelKind then { s with cancelled := some e } else s
+  | _ => s
 
-theorem cur_append_inert_cancelled (cfg : Cfg) (δ t : List (Req × Ans))
-    (h : ∀ x ∈ δ, inertK x.1.kind = true) :
-    (cur cfg (δ ++ t)).cancelled = (cur cfg t).cancelled := by
-  induction δ with
-  | nil => rfl
-  | cons x δ ih =>
-    have hx := h x (by simp)
-    have := ih (fun y hy => h y (by simp [hy]))
-    simp only [List.cons_append, cur_cons]
-    rw [step_inert_cancelled _ _ _ hx, this]
+theorem step_none (cfg : Cfg) (s : St) (x : Req × Ans) (hc : s.cancelled = none) :
+    step cfg s x = if isRecord x.1 then s else cancelMark (stepLive cfg s x) x.2 := by
+  obtain ⟨r, a⟩ := x
+  unfold step cancelMark
+  simp only [hc]
+  split
+  · rfl
+  · cases a <;> rfl
+
+theorem step_some (cfg : Cfg) (s : St) (x : Req × Ans) (c : Exn) (hc : s.cancelled = some c) :
+    (step cfg s x).cancelled = some c := by
+  simp only [step, hc]
+  split <;> simp [hc]
+
+theorem stepLive_inert (cfg : Cfg) (s : St) (x : Req × Ans) (h : inertK x.1.kind = true) :
+    stepLive cfg s x = s := by
+  obtain ⟨r, a⟩ := x
+  cases r <;> simp_all [inertK, Req.kind, stepLive]
 
 /-- What the C13 argument looks at: the monitor state while no cancellation has been seen
-    (after one, the retry level does nothing any more, so nothing needs to be known). -/
+    (after one, the model does nothing any more but breaker bookkeeping). -/
 def viewOf (m : St) : Option St :=
   match m.cancelled with
   | none => some m
@@ -92,15 +93,80 @@ theorem viewOf_eq_some {m m' : St} : viewOf m = some m' ↔ m = m' ∧ m.cancell
   unfold viewOf
   split <;> simp_all
 
-theorem view_foot (cfg : Cfg) (w w' : World) (h : Foot inertK w w') : view cfg w' = view cfg w := by
+theorem viewOf_eq_none {m : St} : viewOf m = none ↔ m.cancelled ≠ none := by
+  unfold viewOf
+  split <;> simp_all
+
+theorem viewOf_of_none {m : St} (h : m.cancelled = none) : viewOf m = some m := by
+  simp [viewOf, h]
+
+theorem view_eq_some {cfg : Cfg} {w : World} {m : St} :
+    view cfg w = some m ↔ cur cfg w.trace = m ∧ m.cancelled = none := by
+  unfold view
+  rw [viewOf_eq_some]
+  constructor
+  · rintro ⟨h1, h2⟩; exact ⟨h1, h1 ▸ h2⟩
+  · rintro ⟨h1, h2⟩; exact ⟨h1, h1 ▸ h2⟩
+
+/-- a cancellation-type exception `e` has just been raised by a callback: it is the exception in
+    flight, and the monitor has recorded it (and nothing else has changed) -/
+def CancV (cfg : Cfg) (v : Option St) (e : Exn) (w : World) : Prop :=
+  e.isCancelKind = true ∧ ∃ m, v = some m ∧ cur cfg w.trace = { m with cancelled := some e }
+
+/-- how a leaf procedure that started with view `v` can end by raising `e`: the view is still `v`,
+    or one of its callbacks raised the cancellation-type exception `e` -/
+def ErrL (cfg : Cfg) (v : Option St) (e : Exn) (w : World) : Prop :=
+  viewOf (cur cfg w.trace) = v ∨ CancV cfg v e w
+
+/-- postcondition of a leaf: the view is kept, except by a cancellation that is then in flight -/
+abbrev leafPost (cfg : Cfg) (v : Option St) : PostCond α (.except Exn (.arg World .pure)) :=
+  post⟨fun _ w => ⌜view cfg w = v⌝, fun e w => ⌜ErrL cfg v e w⌝⟩
+
+theorem view_brk (cfg : Cfg) (w w' : World) (h : Foot brkK w w') : view cfg w' = view cfg w := by
   obtain ⟨δ, e, k⟩ := h.trace
   unfold view
-  rw [e]
-  cases hc : (cur cfg w.trace).cancelled with
-  | none => rw [cur_append_inert cfg δ _ k hc]
-  | some c =>
-    have := cur_append_inert_cancelled cfg δ w.trace k
-    simp [viewOf, hc, this]
+  rw [e, cur_append_brk cfg δ _ k]
+
+theorem step_inert_ok (cfg : Cfg) (m : St) (r : Req) (a : Ans) (hk : inertK r.kind = true)
+    (ha : ∀ e d, ¬ a = Ans.raise e d) : viewOf (step cfg m (r, a)) = viewOf m := by
+  cases hc : m.cancelled with
+  | some c => simp [viewOf, hc, step_some cfg m (r, a) c hc]
+  | none =>
+    rw [step_none cfg m _ hc]
+    split
+    · rfl
+    · rw [stepLive_inert cfg m (r, a) hk]
+      cases a <;> simp_all [cancelMark]
+
+theorem step_inert_raise (cfg : Cfg) (m : St) (r : Req) (e : Exn) (d : Nat) (hk : inertK r.kind = true) :
+    viewOf (step cfg m (r, .raise e d)) = viewOf m ∨
+      (e.isCancelKind = true ∧ m.cancelled = none ∧
+        step cfg m (r, .raise e d) = { m with cancelled := some e }) := by
+  cases hc : m.cancelled with
+  | some c => left; simp [viewOf, hc, step_some cfg m _ c hc]
+  | none =>
+    rw [step_none cfg m _ hc]
+    split
+    · left; rfl
+    · rw [stepLive_inert cfg m _ hk]
+      by_cases hk' : e.isCancelKind = true
+      · right; simp [cancelMark, hk']
+      · left; simp [cancelMark, hk']
+
+/-- one callback invocation whose normal answers do not concern the monitor -/
+theorem ask_l (cfg : Cfg) (v : Option St) (r : Req) (hk : inertK r.kind = true) :
+    ⦃fun w => ⌜view cfg w = v⌝⦄ ask r ⦃leafPost cfg v⦄ := by
+  mvcgen [ask]
+  all_goals (subst_vars; simp only [view, cur_cons, ErrL, CancV])
+  · rcases step_inert_raise cfg (cur cfg ‹World›.trace) r .stuck 0 hk with h | ⟨h1, h2, h3⟩
+    · exact Or.inl h
+    · exact Or.inr ⟨h1, _, viewOf_of_none h2, h3⟩
+  · rename_i e d _
+    rcases step_inert_raise cfg (cur cfg ‹World›.trace) r e d hk with h | ⟨h1, h2, h3⟩
+    · exact Or.inl h
+    · exact Or.inr ⟨h1, _, viewOf_of_none h2, h3⟩
+  · rename_i hr _
+    exact step_inert_ok cfg _ r _ hk (fun e d h => hr e d h)
 
 /-- `emit` leaves the retry state alone -/
 theorem emit_rs (P : RState → Prop) (cfg : Cfg) (tl : Bool) (ev : Event) (a s : Nat) (k : Option EClass)
@@ -280,116 +346,302 @@ theorem handleAbortCall_org (cfg : Cfg) (e : Exn) :
 
 end origin
 
-/-- combine a footprint lemma with an origin lemma -/
-theorem leaf_of {α : Type} {x : M α} {O : Exn → World → Prop} (cfg : Cfg)
-    (hx : ∀ w0, ⦃fun w => ⌜Foot inertK w0 w⌝⦄ x ⦃footPost inertK w0⦄)
-    (ho : ⦃fun _ => ⌜True⌝⦄ x ⦃post⟨fun _ _ => ⌜True⌝, fun e w => ⌜O e w⌝⟩⦄) (v : Option St) :
-    ⦃fun w => ⌜view cfg w = v⌝⦄ x
-    ⦃post⟨fun _ w => ⌜view cfg w = v⌝, fun e w => ⌜view cfg w = v ∧ O e w⌝⟩⦄ := by
+
+/-! ### leaf procedures keep the view — unless a callback raises a cancellation-type exception -/
+
+theorem isCancelKind_not_abort {e : Exn} (h : e.isCancelKind = true) : e.isAbort = false := by
+  cases e <;> simp_all [Exn.isCancelKind, Exn.isAbort]
+
+theorem isCancelKind_not_exception {e : Exn} (h : e.isCancelKind = true) : e.isException = false := by
+  cases e <;> simp_all [Exn.isCancelKind, Exn.isException]
+
+/-- an `Exception` in flight was not a cancellation: the view is unchanged -/
+theorem errL_exception {cfg : Cfg} {v : Option St} {e : Exn} {w : World} (h : ErrL cfg v e w)
+    (he : e.isException = true) : viewOf (cur cfg w.trace) = v := by
+  rcases h with h | ⟨hk, _⟩
+  · exact h
+  · simp [isCancelKind_not_exception hk] at he
+
+theorem errL_abort {cfg : Cfg} {v : Option St} {e : Exn} {w : World} (h : ErrL cfg v e w)
+    (he : e.isAbort = true) : viewOf (cur cfg w.trace) = v := by
+  rcases h with h | ⟨hk, _⟩
+  · exact h
+  · simp [isCancelKind_not_abort hk] at he
+
+section leafL
+attribute [local spec] ask_l
+
+macro "l_close" : tactic => `(tactic| all_goals (
+  (try subst_vars) <;> (try intros) <;> (try simp +zetaDelta only [restore_dummy, view] at *) <;>
+  first
+    | rfl
+    | assumption
+    | (simp_all +zetaDelta; done)
+    | grind [errL_exception, errL_abort, ErrL, view]
+    | skip))
+
+variable (cfg : Cfg) (v : Option St) (tl : Bool)
+
+theorem askMetric_l (ev : Event) (a s : Nat) (t : Tags) :
+    ⦃fun w => ⌜view cfg w = v⌝⦄ askMetric ev a s t ⦃leafPost cfg v⦄ := by
+  mvcgen [askMetric]
+  l_close
+
+theorem askLog_l (ev : Event) (a s : Nat) (t : Tags) (ra : Option Int) :
+    ⦃fun w => ⌜view cfg w = v⌝⦄ askLog ev a s t ra ⦃leafPost cfg v⦄ := by
+  mvcgen [askLog]
+  l_close
+
+attribute [local spec] askMetric_l askLog_l
+
+theorem emit_l (ev : Event) (a s : Nat) (k : Option EClass) (e : Option Exn) (st : Option StopReason)
+    (c : Option Cause) (cl : Option Classification) :
+    ⦃fun w => ⌜view cfg w = v⌝⦄ emit cfg tl ev a s k e st c cl ⦃leafPost cfg v⦄ := by
+  mvcgen [emit, metricHook, recordTimeline, swallowException]
+  l_close
+
+/-- (stated about the log itself: the procedure does not mention the configuration) -/
+theorem setStop_l (t : List (Req × Ans)) (s : StopReason) :
+    ⦃fun w => ⌜w.trace = t⌝⦄ setStop s
+    ⦃post⟨fun _ w => ⌜w.trace = t⌝, fun _ _ => ⌜False⌝⟩⦄ := by
+  mvcgen [setStop, modifyRS]
+  l_close
+
+theorem buildOutcome_l (t : List (Req × Ans)) (ok : Bool) (value : Option Nat) (n : Nat) (ns : Option Nat) :
+    ⦃fun w => ⌜w.trace = t⌝⦄ buildOutcome ok value n ns
+    ⦃post⟨fun _ w => ⌜w.trace = t⌝, fun _ _ => ⌜False⌝⟩⦄ := by
+  mvcgen [buildOutcome, getRS, elapsed]
+  l_close
+
+attribute [local spec] emit_l setStop_l buildOutcome_l
+
+theorem recordStrategySuccess_l :
+    ⦃fun w => ⌜view cfg w = v⌝⦄ recordStrategySuccess cfg ⦃leafPost cfg v⦄ := by
+  mvcgen [recordStrategySuccess, getRS]
+  l_close
+
+theorem stratRecordFailure_l (key : SKey) (k : EClass) :
+    ⦃fun w => ⌜view cfg w = v⌝⦄ stratRecordFailure cfg key k ⦃leafPost cfg v⦄ := by
+  mvcgen [stratRecordFailure]
+  l_close
+
+theorem callStrategy_l (key : SKey) (kind : SKind) (ctx : BackoffCtx) :
+    ⦃fun w => ⌜view cfg w = v⌝⦄ callStrategy key kind ctx ⦃leafPost cfg v⦄ := by
+  mvcgen [callStrategy]
+  l_close
+
+theorem callClassifier_l (e : Exn) :
+    ⦃fun w => ⌜view cfg w = v⌝⦄ callClassifier e ⦃leafPost cfg v⦄ := by
+  mvcgen [callClassifier]
+  l_close
+
+theorem shouldClassifyResult_l (x : Nat) :
+    ⦃fun w => ⌜view cfg w = v⌝⦄ shouldClassifyResult cfg x ⦃leafPost cfg v⦄ := by
+  mvcgen [shouldClassifyResult]
+  l_close
+
+theorem callAttemptStart_l (a : Nat) :
+    ⦃fun w => ⌜view cfg w = v⌝⦄ callAttemptStart cfg a ⦃leafPost cfg v⦄ := by
+  mvcgen [callAttemptStart, elapsed]
+  l_close
+
+theorem callAttemptEnd_l (attempt : Nat) (cls : Option Classification) (exc : Option Exn)
+    (result : Option Nat) (d : AttemptDecision) (stop : Option StopReason) (cause : Option Cause)
+    (sleep : Option Nat) :
+    ⦃fun w => ⌜view cfg w = v⌝⦄ callAttemptEnd cfg attempt cls exc result d stop cause sleep
+    ⦃leafPost cfg v⦄ := by
+  mvcgen [callAttemptEnd, elapsed]
+  l_close
+
+attribute [local spec] callAttemptEnd_l recordStrategySuccess_l
+
+theorem callAttemptEndFromOutcome_l (a : Nat) (o : AOutcome) :
+    ⦃fun w => ⌜view cfg w = v⌝⦄ callAttemptEndFromOutcome cfg a o ⦃leafPost cfg v⦄ := by
+  mvcgen [callAttemptEndFromOutcome]
+  l_close
+
+theorem callBeforeSleep_l (ctx : BackoffCtx) (s : Nat) :
+    ⦃fun w => ⌜view cfg w = v⌝⦄ callBeforeSleep cfg ctx s ⦃leafPost cfg v⦄ := by
+  mvcgen [callBeforeSleep, swallowException]
+  l_close
+
+theorem callSleepHandler_l (lvl : Lvl) (ctx : BackoffCtx) (s : Nat) :
+    ⦃fun w => ⌜view cfg w = v⌝⦄ callSleepHandler lvl ctx s ⦃leafPost cfg v⦄ := by
+  mvcgen [callSleepHandler]
+  l_close
+
+theorem emitAbortedOnce_l (a : Nat) :
+    ⦃fun w => ⌜view cfg w = v⌝⦄ emitAbortedOnce cfg tl a ⦃leafPost cfg v⦄ := by
+  mvcgen [emitAbortedOnce, getRS]
+  l_close
+
+attribute [local spec] emitAbortedOnce_l
+
+theorem abortOutcome_l (a : Nat) :
+    ⦃fun w => ⌜view cfg w = v⌝⦄ abortOutcome cfg tl a ⦃leafPost cfg v⦄ := by
+  mvcgen [abortOutcome]
+  l_close
+
+theorem handleSleepDecision_l (act : SleepDecision) (a s : Nat) :
+    ⦃fun w => ⌜view cfg w = v⌝⦄ handleSleepDecision cfg tl act a s
+    ⦃post⟨fun r w => ⌜(r = act ∧ act ≠ .other) ∧ view cfg w = v⌝, fun e w => ⌜ErrL cfg v e w⌝⟩⦄ := by
+  mvcgen [handleSleepDecision, getRS]
+  l_close
+
+theorem handleSuccessAttemptEnd_l (a x : Nat) :
+    ⦃fun w => ⌜view cfg w = v⌝⦄ handleSuccessAttemptEnd cfg tl a x ⦃leafPost cfg v⦄ := by
+  mvcgen [handleSuccessAttemptEnd]
+  l_close
+
+theorem handleAbortAttemptEnd_l (a : Nat) (e : Exn) :
+    ⦃fun w => ⌜view cfg w = v⌝⦄ handleAbortAttemptEnd cfg a e ⦃leafPost cfg v⦄ := by
+  mvcgen [handleAbortAttemptEnd, getAS, modifyAS]
+  l_close
+
+theorem emitMaxAttemptsExceeded_l :
+    ⦃fun w => ⌜view cfg w = v⌝⦄ emitMaxAttemptsExceeded cfg tl ⦃leafPost cfg v⦄ := by
+  mvcgen [emitMaxAttemptsExceeded, getRS]
+  l_close
+
+attribute [local spec] emitMaxAttemptsExceeded_l abortOutcome_l
+
+theorem raiseExhaustedCall_l :
+    ⦃fun w => ⌜view cfg w = v⌝⦄ raiseExhaustedCall cfg ⦃leafPost cfg v⦄ := by
+  mvcgen [raiseExhaustedCall, getRS]
+  l_close
+
+theorem buildExhaustedOutcome_l :
+    ⦃fun w => ⌜view cfg w = v⌝⦄ buildExhaustedOutcome cfg tl ⦃leafPost cfg v⦄ := by
+  mvcgen [buildExhaustedOutcome]
+  l_close
+
+theorem deliverCall_l (t : List (Req × Ans)) (act : Action) (orig : Option Exn) (fb : ExhaustedFields) :
+    ⦃fun w => ⌜w.trace = t⌝⦄ deliverCall act orig fb
+    ⦃post⟨fun r w => ⌜(r = none ∧ act = .continue_) ∧ w.trace = t⌝, fun _ w => ⌜w.trace = t⌝⟩⦄ := by
+  mvcgen [deliverCall]
+  l_close
+
+theorem deliverExecute_l (act : Action) (o : AOutcome) :
+    ⦃fun w => ⌜view cfg w = v⌝⦄ deliverExecute cfg tl act o
+    ⦃post⟨fun r w => ⌜(r = none → act = .continue_) ∧ view cfg w = v⌝, fun e w => ⌜ErrL cfg v e w⌝⟩⦄ := by
+  mvcgen [deliverExecute]
+  l_close
+
+theorem stopWith_l (s : StopReason) (ev : Event) (a : Nat) (k : EClass) (e : Option Exn) (c : Cause) :
+    ⦃fun w => ⌜view cfg w = v⌝⦄ stopWith cfg tl s ev a k e c
+    ⦃post⟨fun d w => ⌜d = .raise ∧ view cfg w = v⌝, fun e w => ⌜ErrL cfg v e w⌝⟩⦄ := by
+  mvcgen [stopWith]
+  l_close
+
+theorem budgetConsume_l :
+    ⦃fun w => ⌜view cfg w = v⌝⦄ budgetConsume cfg
+    ⦃post⟨fun _ w => ⌜view cfg w = v⌝, fun _ _ => ⌜False⌝⟩⦄ := by
+  mvcgen [budgetConsume]
+  all_goals (subst_vars; simp only [view, cur_cons])
+  all_goals (first | rfl | exact step_inert_ok cfg _ _ _ rfl (by simp))
+
+/-! #### policy level -/
+open Policy
+
+theorem emitBreakerEvent_l (ev : Option Event) (st : CState) (k : Option EClass) :
+    ⦃fun w => ⌜view cfg w = v⌝⦄ emitBreakerEvent cfg ev st k ⦃leafPost cfg v⦄ := by
+  mvcgen [emitBreakerEvent, swallowException]
+  l_close
+
+attribute [local spec] emitBreakerEvent_l
+
+theorem breakerAllow_l (bc : Breaker.Cfg) :
+    ⦃fun w => ⌜view cfg w = v⌝⦄ breakerAllow bc
+    ⦃post⟨fun _ w => ⌜view cfg w = v⌝, fun _ _ => ⌜False⌝⟩⦄ := by
+  mvcgen [breakerAllow]
+  all_goals (subst_vars; simp only [view, cur_cons])
+  all_goals (first | rfl | exact step_inert_ok cfg _ _ _ rfl (by simp))
+
+theorem checkBreaker_l : ⦃fun w => ⌜view cfg w = v⌝⦄ checkBreaker cfg ⦃leafPost cfg v⦄ := by
+  have h := breakerAllow_l cfg
+  mvcgen [checkBreaker, h]
+  l_close
+
+theorem recordSuccess_l : ⦃fun w => ⌜view cfg w = v⌝⦄ Policy.recordSuccess cfg ⦃leafPost cfg v⦄ := by
+  mvcgen [Policy.recordSuccess]
+  l_close
+  all_goals (simp_all [step_record, isRecord]; done)
+
+theorem recordFailure_l (k : EClass) :
+    ⦃fun w => ⌜view cfg w = v⌝⦄ Policy.recordFailure cfg k ⦃leafPost cfg v⦄ := by
+  mvcgen [Policy.recordFailure]
+  l_close
+  all_goals (simp_all [step_record, isRecord]; done)
+
+theorem noRetryStartHook_l : ⦃fun w => ⌜view cfg w = v⌝⦄ noRetryStartHook cfg ⦃leafPost cfg v⦄ := by
+  mvcgen [noRetryStartHook, xElapsed]
+  l_close
+
+theorem noRetryEndHook_l (exc : Option Exn) (r : Option Nat) (d : AttemptDecision)
+    (stop : Option StopReason) (cause : Option Cause) :
+    ⦃fun w => ⌜view cfg w = v⌝⦄ noRetryEndHook cfg exc r d stop cause ⦃leafPost cfg v⦄ := by
+  mvcgen [noRetryEndHook, xElapsed]
+  l_close
+
+theorem policyOutcome_l (t : List (Req × Ans)) (ok : Bool) (value : Option Nat) (stop : Option StopReason)
+    (attempts : Nat) (lc : Option EClass) (le : Option String) (cause : Option Cause) :
+    ⦃fun w => ⌜w.trace = t⌝⦄ policyOutcome ok value stop attempts lc le cause
+    ⦃post⟨fun o w => ⌜o.stop = stop ∧ w.trace = t⌝, fun _ _ => ⌜False⌝⟩⦄ := by
+  mvcgen [policyOutcome, xElapsed]
+
+theorem initCtx_l (t : List (Req × Ans)) :
+    ⦃fun w => ⌜w.trace = t⌝⦄ initCtx ⦃post⟨fun _ w => ⌜w.trace = t⌝, fun _ _ => ⌜False⌝⟩⦄ := by
+  mvcgen [initCtx]
+
+attribute [local spec] noRetryEndHook_l recordFailure_l
+
+theorem classifyForBreaker_l (e : Exn) :
+    ⦃fun w => ⌜view cfg w = v⌝⦄ classifyForBreaker cfg e ⦃leafPost cfg v⦄ := by
+  have h := callClassifier_l cfg
+  mvcgen [classifyForBreaker, h]
+  l_close
+
+attribute [local spec] classifyForBreaker_l
+
+theorem handleExhaustedCall_l (e : Exn) :
+    ⦃fun w => ⌜view cfg w = v⌝⦄ handleExhaustedCall cfg e ⦃leafPost cfg v⦄ := by
+  mvcgen [handleExhaustedCall]
+  l_close
+
+theorem handleExceptionCall_l (e : Exn) (b : Bool) :
+    ⦃fun w => ⌜view cfg w = v⌝⦄ handleExceptionCall cfg e b ⦃leafPost cfg v⦄ := by
+  mvcgen [handleExceptionCall]
+  l_close
+
+theorem recordCancel_l :
+    ⦃fun w => ⌜view cfg w = v⌝⦄ Policy.recordCancel cfg
+    ⦃post⟨fun _ w => ⌜view cfg w = v⌝, fun _ _ => ⌜False⌝⟩⦄ := by
+  mvcgen [Policy.recordCancel]
+  l_close
+  all_goals (simp_all [step_record, isRecord]; done)
+
+attribute [local spec] recordCancel_l
+
+theorem handleAbortCall_l (e : Exn) :
+    ⦃fun w => ⌜view cfg w = v⌝⦄ handleAbortCall cfg e ⦃leafPost cfg v⦄ := by
+  mvcgen [handleAbortCall]
+  l_close
+
+end leafL
+
+/-! ### leaf specifications used below: view + (where needed) origin of the escaping exception -/
+
+/-- conjunction of a view lemma and an origin lemma -/
+theorem leaf_and {α : Type} {x : M α} {P : World → Prop} {Q : α → World → Prop} {R : α → Prop}
+    {E O : Exn → World → Prop}
+    (hl : ⦃fun w => ⌜P w⌝⦄ x ⦃post⟨fun a w => ⌜Q a w⌝, fun e w => ⌜E e w⌝⟩⦄)
+    (ho : ⦃fun _ => ⌜True⌝⦄ x ⦃post⟨fun a _ => ⌜R a⌝, fun e w => ⌜O e w⌝⟩⦄) :
+    ⦃fun w => ⌜P w⌝⦄ x ⦃post⟨fun a w => ⌜R a ∧ Q a w⌝, fun e w => ⌜E e w ∧ O e w⌝⟩⦄ := by
   apply triple_of_run
   intro w hw
-  have h1 := adequacy (hx w) w (Foot.refl _ w)
+  have h1 := adequacy hl w hw
   have h2 := adequacy ho w trivial
-  split <;> simp_all <;> (rw [← hw]; exact view_foot cfg _ _ h1)
-
-/-- "the view is `v`" on both exits -/
-abbrev same (cfg : Cfg) (v : Option St) : PostCond α (.except Exn (.arg World .pure)) :=
-  post⟨fun _ w => ⌜view cfg w = v⌝, fun _ w => ⌜view cfg w = v⌝⟩
-
-/-- "the view is `v`" on both exits, and what escapes is no `Exception` and comes from a hook -/
-abbrev sameE (cfg : Cfg) (v : Option St) : PostCond α (.except Exn (.arg World .pure)) :=
-  post⟨fun _ w => ⌜view cfg w = v⌝,
-       fun e w => ⌜view cfg w = v ∧ e.isException = false ∧ Raised w.trace e⌝⟩
-
-/-- "the view is `v`" on both exits, and what escapes comes from a hook -/
-abbrev sameR (cfg : Cfg) (v : Option St) : PostCond α (.except Exn (.arg World .pure)) :=
-  post⟨fun _ w => ⌜view cfg w = v⌝, fun e w => ⌜view cfg w = v ∧ Raised w.trace e⌝⟩
-
-/-! ### leaf procedures never move the view -/
-section leaves
-variable (v : Option St) (cfg : Cfg) (tl : Bool)
-
-theorem emit_v (ev : Event) (a s : Nat) (k : Option EClass) (e : Option Exn) (st : Option StopReason)
-    (c : Option Cause) (cl : Option Classification) :
-    ⦃fun w => ⌜view cfg w = v⌝⦄ emit cfg tl ev a s k e st c cl ⦃sameE cfg v⦄ :=
-  leaf_of cfg (fun w0 => emit_foot inertK w0 rfl rfl cfg tl ev a s k e st c cl)
-    (emit_org cfg tl ev a s k e st c cl) v
-
-theorem setStop_v (s : StopReason) :
-    ⦃fun w => ⌜view cfg w = v⌝⦄ setStop s
-    ⦃post⟨fun _ w => ⌜view cfg w = v⌝, fun _ _ => ⌜False⌝⟩⦄ := by
-  mvcgen [setStop, modifyRS]
-  all_goals (subst_vars; simp_all [view])
-
-theorem recordStrategySuccess_v : ⦃fun w => ⌜view cfg w = v⌝⦄ recordStrategySuccess cfg ⦃same cfg v⦄ :=
-  view_of_foot (view cfg) (fun w0 => recordStrategySuccess_foot inertK w0 rfl cfg) (view_foot cfg) v
-
-theorem stratRecordFailure_v (key : SKey) (k : EClass) :
-    ⦃fun w => ⌜view cfg w = v⌝⦄ stratRecordFailure cfg key k ⦃same cfg v⦄ :=
-  view_of_foot (view cfg) (fun w0 => stratRecordFailure_foot inertK w0 rfl cfg key k) (view_foot cfg) v
-
-theorem callStrategy_v (key : SKey) (kind : SKind) (ctx : BackoffCtx) :
-    ⦃fun w => ⌜view cfg w = v⌝⦄ callStrategy key kind ctx ⦃same cfg v⦄ :=
-  view_of_foot (view cfg) (fun w0 => callStrategy_foot inertK w0 rfl key kind ctx) (view_foot cfg) v
-
-theorem callClassifier_v (e : Exn) : ⦃fun w => ⌜view cfg w = v⌝⦄ callClassifier e ⦃same cfg v⦄ :=
-  view_of_foot (view cfg) (fun w0 => callClassifier_foot inertK w0 rfl e) (view_foot cfg) v
-
-theorem shouldClassifyResult_v (x : Nat) :
-    ⦃fun w => ⌜view cfg w = v⌝⦄ shouldClassifyResult cfg x ⦃same cfg v⦄ :=
-  view_of_foot (view cfg) (fun w0 => shouldClassifyResult_foot inertK w0 rfl cfg x) (view_foot cfg) v
-
-theorem callAttemptStart_v (a : Nat) : ⦃fun w => ⌜view cfg w = v⌝⦄ callAttemptStart cfg a ⦃same cfg v⦄ :=
-  view_of_foot (view cfg) (fun w0 => callAttemptStart_foot inertK w0 rfl cfg a) (view_foot cfg) v
-
-theorem callAttemptEndFromOutcome_v (a : Nat) (o : AOutcome) :
-    ⦃fun w => ⌜view cfg w = v⌝⦄ callAttemptEndFromOutcome cfg a o ⦃same cfg v⦄ :=
-  view_of_foot (view cfg) (fun w0 => callAttemptEndFromOutcome_foot inertK w0 rfl cfg a o) (view_foot cfg) v
-
-theorem callBeforeSleep_v (ctx : BackoffCtx) (s : Nat) :
-    ⦃fun w => ⌜view cfg w = v⌝⦄ callBeforeSleep cfg ctx s ⦃same cfg v⦄ :=
-  view_of_foot (view cfg) (fun w0 => callBeforeSleep_foot inertK w0 rfl cfg ctx s) (view_foot cfg) v
-
-theorem callSleepHandler_v (lvl : Lvl) (ctx : BackoffCtx) (s : Nat) :
-    ⦃fun w => ⌜view cfg w = v⌝⦄ callSleepHandler lvl ctx s ⦃same cfg v⦄ :=
-  view_of_foot (view cfg) (fun w0 => callSleepHandler_foot inertK w0 rfl lvl ctx s) (view_foot cfg) v
-
-theorem buildOutcome_v (ok : Bool) (value : Option Nat) (n : Nat) (ns : Option Nat) :
-    ⦃fun w => ⌜view cfg w = v⌝⦄ buildOutcome ok value n ns ⦃same cfg v⦄ :=
-  view_of_foot (view cfg) (fun w0 => buildOutcome_foot inertK w0 ok value n ns) (view_foot cfg) v
-
-theorem emitAbortedOnce_v (a : Nat) :
-    ⦃fun w => ⌜view cfg w = v⌝⦄ emitAbortedOnce cfg tl a ⦃sameE cfg v⦄ :=
-  leaf_of cfg (fun w0 => emitAbortedOnce_foot inertK w0 rfl rfl cfg tl a) (emitAbortedOnce_org cfg tl a) v
-
-theorem handleSleepDecision_v (act : SleepDecision) (a s : Nat) :
-    ⦃fun w => ⌜view cfg w = v⌝⦄ handleSleepDecision cfg tl act a s
-    ⦃post⟨fun r w => ⌜(r = act ∧ act ≠ .other) ∧ view cfg w = v⌝, fun _ w => ⌜view cfg w = v⌝⟩⦄ :=
-  view_of_foot' (view cfg) (fun w0 => handleSleepDecision_foot inertK w0 rfl rfl cfg tl act a s)
-    (view_foot cfg) v
-
-theorem handleSuccessAttemptEnd_v (a x : Nat) :
-    ⦃fun w => ⌜view cfg w = v⌝⦄ handleSuccessAttemptEnd cfg tl a x ⦃same cfg v⦄ :=
-  view_of_foot (view cfg) (fun w0 => handleSuccessAttemptEnd_foot inertK w0 rfl rfl rfl rfl cfg tl a x)
-    (view_foot cfg) v
-
-theorem handleAbortAttemptEnd_v (a : Nat) (e : Exn) :
-    ⦃fun w => ⌜view cfg w = v⌝⦄ handleAbortAttemptEnd cfg a e ⦃sameR cfg v⦄ :=
-  leaf_of cfg (fun w0 => handleAbortAttemptEnd_foot inertK w0 rfl cfg a e)
-    (handleAbortAttemptEnd_org cfg a e) v
-
-theorem raiseExhaustedCall_v : ⦃fun w => ⌜view cfg w = v⌝⦄ raiseExhaustedCall cfg ⦃same cfg v⦄ :=
-  view_of_foot (view cfg) (fun w0 => raiseExhaustedCall_foot inertK w0 rfl rfl cfg) (view_foot cfg) v
-
-theorem buildExhaustedOutcome_v : ⦃fun w => ⌜view cfg w = v⌝⦄ buildExhaustedOutcome cfg tl ⦃same cfg v⦄ :=
-  view_of_foot (view cfg) (fun w0 => buildExhaustedOutcome_foot inertK w0 rfl rfl cfg tl) (view_foot cfg) v
-
-theorem deliverCall_v (act : Action) (orig : Option Exn) (fb : ExhaustedFields) :
-    ⦃fun w => ⌜view cfg w = v⌝⦄ deliverCall act orig fb
-    ⦃post⟨fun r w => ⌜(r = none ∧ act = .continue_) ∧ view cfg w = v⌝, fun _ w => ⌜view cfg w = v⌝⟩⦄ :=
-  view_of_foot' (view cfg) (fun w0 => deliverCall_foot inertK w0 act orig fb) (view_foot cfg) v
-
-end leaves
+  split <;> simp_all
 
 theorem triple_and {α : Type} {x : M α} {Q1 Q2 : α → World → Prop} {E1 E2 : Exn → World → Prop}
     (h1 : ⦃fun _ => ⌜True⌝⦄ x ⦃post⟨fun a w => ⌜Q1 a w⌝, fun e w => ⌜E1 e w⌝⟩⦄)
@@ -401,37 +653,49 @@ theorem triple_and {α : Type} {x : M α} {Q1 Q2 : α → World → Prop} {E1 E2
   have a2 := adequacy h2 w trivial
   split <;> simp_all
 
-/-- like `leaf_of`, keeping a fact about the returned value -/
-theorem leaf_of' {α : Type} {x : M α} {R : α → Prop} {O : Exn → World → Prop} (cfg : Cfg)
-    (hx : ∀ w0, ⦃fun w => ⌜Foot inertK w0 w⌝⦄ x ⦃footPost inertK w0⦄)
-    (ho : ⦃fun _ => ⌜True⌝⦄ x ⦃post⟨fun a _ => ⌜R a⌝, fun e w => ⌜O e w⌝⟩⦄) (v : Option St) :
-    ⦃fun w => ⌜view cfg w = v⌝⦄ x
-    ⦃post⟨fun a w => ⌜R a ∧ view cfg w = v⌝, fun e w => ⌜view cfg w = v ∧ O e w⌝⟩⦄ := by
-  apply triple_of_run
-  intro w hw
-  have h1 := adequacy (hx w) w (Foot.refl _ w)
-  have h2 := adequacy ho w trivial
-  split <;> simp_all <;> (rw [← hw]; exact view_foot cfg _ _ h1)
+/-- the view is kept on the normal exit; what escapes is no `Exception` and comes from a hook -/
+abbrev sameE (cfg : Cfg) (v : Option St) : PostCond α (.except Exn (.arg World .pure)) :=
+  post⟨fun _ w => ⌜view cfg w = v⌝,
+       fun e w => ⌜ErrL cfg v e w ∧ e.isException = false ∧ Raised w.trace e⌝⟩
 
-theorem abortOutcome_v (v : Option St) (cfg : Cfg) (tl : Bool) (a : Nat) :
-    ⦃fun w => ⌜view cfg w = v⌝⦄ abortOutcome cfg tl a
-    ⦃post⟨fun o w => ⌜o.stop = some .aborted ∧ view cfg w = v⌝,
-          fun e w => ⌜view cfg w = v ∧ e.isException = false ∧ Raised w.trace e⌝⟩⦄ := by
-  have h := leaf_of' (R := fun o => o.stop = some .aborted ∧ True) cfg
-    (fun w0 => abortOutcome_foot inertK w0 rfl rfl cfg tl a)
-    (triple_and (abortOutcome_stop cfg tl a) (abortOutcome_org cfg tl a)) v
+/-- the view is kept on the normal exit; what escapes comes from a hook -/
+abbrev sameR (cfg : Cfg) (v : Option St) : PostCond α (.except Exn (.arg World .pure)) :=
+  post⟨fun _ w => ⌜view cfg w = v⌝, fun e w => ⌜ErrL cfg v e w ∧ Raised w.trace e⌝⟩
+
+section leaves
+variable (cfg : Cfg) (v : Option St) (tl : Bool)
+
+theorem emit_v (ev : Event) (a s : Nat) (k : Option EClass) (e : Option Exn) (st : Option StopReason)
+    (c : Option Cause) (cl : Option Classification) :
+    ⦃fun w => ⌜view cfg w = v⌝⦄ emit cfg tl ev a s k e st c cl ⦃sameE cfg v⦄ := by
+  have h := leaf_and (emit_l cfg v tl ev a s k e st c cl) (emit_org cfg tl ev a s k e st c cl)
   simpa using h
 
-theorem deliverExecute_v (v : Option St) (cfg : Cfg) (tl : Bool) (act : Action) (o : AOutcome) :
-    ⦃fun w => ⌜view cfg w = v⌝⦄ deliverExecute cfg tl act o
-    ⦃post⟨fun r w => ⌜(r = none → act = .continue_) ∧ view cfg w = v⌝, fun _ w => ⌜view cfg w = v⌝⟩⦄ :=
-  view_of_foot' (view cfg) (fun w0 => deliverExecute_foot inertK w0 rfl rfl cfg tl act o) (view_foot cfg) v
+theorem emitAbortedOnce_v (a : Nat) :
+    ⦃fun w => ⌜view cfg w = v⌝⦄ emitAbortedOnce cfg tl a ⦃sameE cfg v⦄ := by
+  have h := leaf_and (emitAbortedOnce_l cfg v tl a) (emitAbortedOnce_org cfg tl a)
+  simpa using h
 
-attribute [local spec] emit_v setStop_v recordStrategySuccess_v stratRecordFailure_v callStrategy_v
-  callClassifier_v shouldClassifyResult_v callAttemptStart_v callAttemptEndFromOutcome_v callBeforeSleep_v
-  callSleepHandler_v buildOutcome_v emitAbortedOnce_v handleSleepDecision_v handleSuccessAttemptEnd_v
-  handleAbortAttemptEnd_v raiseExhaustedCall_v buildExhaustedOutcome_v deliverCall_v abortOutcome_v
-  deliverExecute_v
+theorem handleAbortAttemptEnd_v (a : Nat) (e : Exn) :
+    ⦃fun w => ⌜view cfg w = v⌝⦄ handleAbortAttemptEnd cfg a e ⦃sameR cfg v⦄ := by
+  have h := leaf_and (handleAbortAttemptEnd_l cfg v a e) (handleAbortAttemptEnd_org cfg a e)
+  simpa using h
+
+theorem abortOutcome_v (a : Nat) :
+    ⦃fun w => ⌜view cfg w = v⌝⦄ abortOutcome cfg tl a
+    ⦃post⟨fun o w => ⌜o.stop = some .aborted ∧ view cfg w = v⌝,
+          fun e w => ⌜ErrL cfg v e w ∧ e.isException = false ∧ Raised w.trace e⌝⟩⦄ := by
+  have h := leaf_and (R := fun o => o.stop = some .aborted ∧ True) (abortOutcome_l cfg v tl a)
+    (triple_and (abortOutcome_stop cfg tl a) (abortOutcome_org cfg tl a))
+  simpa using h
+
+end leaves
+
+attribute [local spec] emit_v setStop_l recordStrategySuccess_l stratRecordFailure_l callStrategy_l
+  callClassifier_l shouldClassifyResult_l callAttemptStart_l callAttemptEndFromOutcome_l callBeforeSleep_l
+  callSleepHandler_l buildOutcome_l emitAbortedOnce_v handleSleepDecision_l handleSuccessAttemptEnd_l
+  handleAbortAttemptEnd_v raiseExhaustedCall_l buildExhaustedOutcome_l deliverCall_l abortOutcome_v
+  deliverExecute_l budgetConsume_l stopWith_l
 
 /-! ### the phases of a run, as the monitor sees them -/
 
@@ -460,50 +724,6 @@ structure FinS (cfg : Cfg) (e : Exn) (w : World) : Prop extends Fin cfg e w wher
   strong : (cur cfg w.trace).aborted = true → (cur cfg w.trace).cancelled = none →
     e.isAbort = true ∨ e.isException = false
 
-theorem view_eq_some {cfg : Cfg} {w : World} {m : St} :
-    view cfg w = some m ↔ cur cfg w.trace = m ∧ m.cancelled = none := by
-  unfold view
-  rw [viewOf_eq_some]
-  constructor
-  · rintro ⟨h1, h2⟩; exact ⟨h1, h1 ▸ h2⟩
-  · rintro ⟨h1, h2⟩; exact ⟨h1, h1 ▸ h2⟩
-
-theorem finS_of_live {cfg : Cfg} {w : World} {m : St} (e : Exn) (hv : view cfg w = some m)
-    (hm : Live m) : FinS cfg e w := by
-  obtain ⟨h1, h2⟩ := view_eq_some.mp hv
-  refine ⟨⟨by rw [h1]; exact hm.bad, ?_, ?_⟩, ?_⟩ <;> (rw [h1]; simp [hm.aborted, hm.cancelled])
-
-/-- the monitor after a poll that answered "go on" -/
-def pollOk (cfg : Cfg) (m : St) : St := if cfg.abortIf then { m with polled := true } else m
-
-theorem finS_of_view {cfg : Cfg} {w : World} {m : St} {e : Exn} (hv : view cfg w = some m)
-    (hb : m.bad = false)
-    (ha : m.aborted = true → e.isAbort = true ∨ (e.isException = false ∧ Raised w.trace e)) :
-    FinS cfg e w := by
-  obtain ⟨h1, h2⟩ := view_eq_some.mp hv
-  refine ⟨⟨by rw [h1]; exact hb, by rw [h1, h2]; simp, ?_⟩, ?_⟩
-  · rw [h1]; intro h _
-    rcases ha h with h | h
-    · exact Or.inl h
-    · exact Or.inr (Or.inr h.2)
-  · rw [h1]; intro h _
-    rcases ha h with h | h
-    · exact Or.inl h
-    · exact Or.inr h.1
-
-theorem step_dur (cfg : Cfg) (m : St) (r : Req) (e : Exn) (d : Nat) :
-    step cfg m (r, .raise e d) = step cfg m (r, .raise e 0) := by
-  cases r <;> simp [step]
-
-/-- one exchange, as the monitor sees it -/
-theorem ask_cur (cfg : Cfg) (r : Req) (m : St) :
-    ⦃fun w => ⌜cur cfg w.trace = m⌝⦄ ask r
-    ⦃post⟨fun a w => ⌜cur cfg w.trace = step cfg m (r, a) ∧ ∀ e d, ¬ a = Ans.raise e d⌝,
-          fun e w => ⌜cur cfg w.trace = step cfg m (r, .raise e 0) ∧ (isOp r = false → Raised w.trace e)⌝⟩⦄ := by
-  mvcgen [ask]
-  all_goals (subst_vars; simp_all [step_dur cfg _ r _ _])
-  all_goals (intro hr; exact ⟨_, List.mem_cons_self, hr, _, rfl⟩)
-
 theorem finS_iff {cfg : Cfg} {e : Exn} {w : World} : FinS cfg e w ↔
     (cur cfg w.trace).bad = false ∧
     (∀ c, (cur cfg w.trace).cancelled = some c → e = c ∧ c.isCancelKind = true) ∧
@@ -518,8 +738,42 @@ theorem fin_iff {cfg : Cfg} {e : Exn} {w : World} : Fin cfg e w ↔
     ((cur cfg w.trace).aborted = true → (cur cfg w.trace).cancelled = none → Org e w) :=
   ⟨fun h => ⟨h.bad, h.canc, h.abt⟩, fun h => ⟨h.1, h.2.1, h.2.2⟩⟩
 
-theorem viewOf_of_none {m : St} (h : m.cancelled = none) : viewOf m = some m := by
-  simp [viewOf, h]
+/-- a cancellation just raised and in flight is what the verdict wants, whatever the phase was -/
+theorem finS_of_canc {cfg : Cfg} {m : St} {e : Exn} {w : World} (hk : e.isCancelKind = true)
+    (hc : cur cfg w.trace = { m with cancelled := some e }) (hb : m.bad = false) : FinS cfg e w := by
+  rw [finS_iff, hc]
+  simp [hb, hk]
+
+/-- how a leaf that started in a good state `m` may end by raising -/
+theorem finS_of_errL {cfg : Cfg} {m : St} {e : Exn} {w : World} (h : ErrL cfg (some m) e w)
+    (hb : m.bad = false)
+    (ha : m.aborted = true → e.isAbort = true ∨ (e.isException = false ∧ (e = .stuck ∨ Raised w.trace e))) :
+    FinS cfg e w := by
+  rcases h with h | ⟨hk, m', hm', hc⟩
+  · obtain ⟨h1, h2⟩ := viewOf_eq_some.mp h
+    rw [finS_iff, h1]
+    refine ⟨hb, by simp [h1 ▸ h2], fun a _ => ?_, fun a _ => ?_⟩
+    · rcases ha a with h | h
+      · exact Or.inl h
+      · exact Or.inr h.2
+    · rcases ha a with h | h
+      · exact Or.inl h
+      · exact Or.inr h.1
+  · cases hm'
+    exact finS_of_canc hk hc hb
+
+theorem step_dur (cfg : Cfg) (m : St) (r : Req) (e : Exn) (d : Nat) :
+    step cfg m (r, .raise e d) = step cfg m (r, .raise e 0) := by
+  cases r <;> simp [step, stepLive] <;> (repeat' split) <;> simp_all
+
+/-- one exchange, as the monitor sees it -/
+theorem ask_cur (cfg : Cfg) (r : Req) (m : St) :
+    ⦃fun w => ⌜cur cfg w.trace = m⌝⦄ ask r
+    ⦃post⟨fun a w => ⌜cur cfg w.trace = step cfg m (r, a) ∧ ∀ e d, ¬ a = Ans.raise e d⌝,
+          fun e w => ⌜cur cfg w.trace = step cfg m (r, .raise e 0) ∧ (isOp r = false → Raised w.trace e)⌝⟩⦄ := by
+  mvcgen [ask]
+  all_goals (subst_vars; simp_all [step_dur cfg _ r _ _])
+  all_goals (intro hr; exact ⟨_, List.mem_cons_self, hr, _, rfl⟩)
 
 /-- the poll answered True -/
 def saysAbort : Ans → Bool
@@ -527,13 +781,15 @@ def saysAbort : Ans → Bool
   | _ => false
 
 theorem step_abortIf (cfg : Cfg) (m : St) (a : Ans) (hc : m.cancelled = none) :
-    step cfg m (.abortIf, a) = { m with polled := true, aborted := m.aborted || saysAbort a } := by
-  cases a <;> simp [step, hc, saysAbort]
+    step cfg m (.abortIf, a) =
+      cancelMark { m with polled := true, aborted := m.aborted || saysAbort a } a := by
+  rw [step_none cfg m _ hc]
+  cases a <;> simp [isRecord, stepLive, saysAbort]
   rename_i b _
   cases b <;> simp
 
-theorem saysAbort_false (a : Ans) (h : ∀ d, a = Ans.bool true d → False) : saysAbort a = false := by
-  cases a <;> simp_all [saysAbort]
+/-- the monitor after a poll that answered "go on" -/
+def pollOk (cfg : Cfg) (m : St) : St := if cfg.abortIf then { m with polled := true } else m
 
 /-- the monitor after an attempt or a sleep that was preceded by a poll -/
 def afterOp (m : St) : St := { m with polled := false }
@@ -545,34 +801,54 @@ def cancelledOp (m : St) (e : Exn) : St := { m with polled := false, cancelled :
 theorem step_op_ok (cfg : Cfg) (m : St) (a : Ans) (hm : Ready cfg m)
     (ha : ∀ e d, ¬ a = Ans.raise e d) (n : Nat) : step cfg m (.op n, a) = afterOp m := by
   obtain ⟨⟨h1, h2, h3⟩, h4⟩ := hm
-  cases a <;> simp_all [step, afterOp] <;> (cases hab : cfg.abortIf <;> simp_all)
+  rw [step_none cfg m _ h2]
+  cases a <;> simp_all [isRecord, stepLive, cancelMark, afterOp] <;> (cases hab : cfg.abortIf <;> simp_all)
 
 theorem step_op_raise (cfg : Cfg) (m : St) (n : Nat) (e : Exn) (d : Nat) (hm : Ready cfg m) :
     step cfg m (.op n, .raise e d) =
       if e.isAbort then abortedOp m else if e.isCancelKind then cancelledOp m e else afterOp m := by
   obtain ⟨⟨h1, h2, h3⟩, h4⟩ := hm
-  cases hab : cfg.abortIf <;> simp_all [step, afterOp, abortedOp, cancelledOp] <;>
-    (split <;> simp_all) <;> (split <;> simp_all)
+  rw [step_none cfg m _ h2]
+  by_cases ha : e.isAbort = true
+  · have hk : e.isCancelKind = false := by cases e <;> simp_all [Exn.isCancelKind, Exn.isAbort]
+    cases hab : cfg.abortIf <;> simp_all [isRecord, stepLive, cancelMark, abortedOp]
+  · by_cases hk : e.isCancelKind = true <;>
+      (cases hab : cfg.abortIf <;> simp_all [isRecord, stepLive, cancelMark, afterOp, cancelledOp])
 
 theorem step_sleeper_ok (cfg : Cfg) (m : St) (a : Ans) (hm : Ready cfg m)
     (ha : ∀ e d, ¬ a = Ans.raise e d) (l : Lvl) (n : Nat) : step cfg m (.sleeper l n, a) = afterOp m := by
   obtain ⟨⟨h1, h2, h3⟩, h4⟩ := hm
-  cases a <;> simp_all [step, afterOp] <;> (cases hab : cfg.abortIf <;> simp_all)
+  rw [step_none cfg m _ h2]
+  cases a <;> simp_all [isRecord, stepLive, cancelMark, afterOp] <;> (cases hab : cfg.abortIf <;> simp_all)
 
 theorem step_sleeper_raise (cfg : Cfg) (m : St) (l : Lvl) (n : Nat) (e : Exn) (d : Nat)
     (hm : Ready cfg m) :
     step cfg m (.sleeper l n, .raise e d) = if e.isCancelKind then cancelledOp m e else afterOp m := by
   obtain ⟨⟨h1, h2, h3⟩, h4⟩ := hm
-  cases hab : cfg.abortIf <;> simp_all [step, afterOp, cancelledOp] <;> (split <;> simp_all)
+  rw [step_none cfg m _ h2]
+  by_cases hk : e.isCancelKind = true <;>
+    (cases hab : cfg.abortIf <;> simp_all [isRecord, stepLive, cancelMark, afterOp, cancelledOp])
+
+/-- normalise views to monitor states and let `simp_all` (then `grind`) do the rest -/
+macro "c13" : tactic => `(tactic| all_goals (
+  first
+    | ((try subst_vars) <;> (try intros) <;> (try simp only [view, finS_iff, fin_iff, ErrL, CancV] at *) <;>
+       (simp_all +zetaDelta [viewOf_eq_some, viewOf_of_none, step_abortIf, cancelMark, saysAbort, pollOk, Org,
+         Exn.isAbort, Exn.isException, Exn.isCancelKind, step_op_ok, step_op_raise, step_sleeper_ok,
+         step_sleeper_raise, afterOp, abortedOp, cancelledOp]; done))
+    | ((try subst_vars) <;> (try intros) <;> (try simp only [view, finS_iff, fin_iff, ErrL, CancV] at *) <;>
+       (try simp_all +zetaDelta [viewOf_eq_some, viewOf_of_none, step_abortIf, cancelMark, saysAbort, pollOk, Org,
+         Exn.isAbort, Exn.isException, Exn.isCancelKind, step_op_ok, step_op_raise, step_sleeper_ok,
+         step_sleeper_raise, afterOp, abortedOp, cancelledOp]) <;>
+       grind [isCancelKind_not_abort, isCancelKind_not_exception])
+    | skip))
 
 theorem checkAbort_spec (cfg : Cfg) (tl : Bool) (a : Nat) (m : St) (hm : Live m) :
     ⦃fun w => ⌜view cfg w = some m⌝⦄ checkAbort cfg tl a
     ⦃post⟨fun _ w => ⌜view cfg w = some (pollOk cfg m)⌝, fun e w => ⌜FinS cfg e w⌝⟩⦄ := by
   obtain ⟨h1, h2, h3⟩ := hm
   mvcgen [checkAbort, ask_cur]
-  all_goals ((try subst_vars) <;> (try intros) <;> (try simp only [view, finS_iff] at *) <;>
-    simp_all [viewOf_eq_some, viewOf_of_none, step_abortIf, saysAbort, pollOk, Org, Exn.isAbort,
-      Exn.isException])
+  c13
 
 theorem Live.pollOk {cfg : Cfg} {m : St} (hm : Live m) : Ready cfg (pollOk cfg m) := by
   obtain ⟨h1, h2, h3⟩ := hm
@@ -582,36 +858,19 @@ theorem Live.pollOk {cfg : Cfg} {m : St} (hm : Live m) : Ready cfg (pollOk cfg m
 theorem Ready.afterOp {cfg : Cfg} {m : St} (hm : Ready cfg m) : Live (afterOp m) :=
   ⟨hm.aborted, hm.cancelled, hm.bad⟩
 
-/-- what an attempt's `except` ladder finds -/
-structure OpErr (cfg : Cfg) (m : St) (e : Exn) (w : World) : Prop extends FinS cfg e w where
-  onAbort : e.isAbort = true → view cfg w = some (abortedOp m)
-  onOther : e.isAbort = false → e.isCancelKind = false → view cfg w = some (C13.afterOp m)
-
-theorem opErr_iff {cfg : Cfg} {m : St} {e : Exn} {w : World} : OpErr cfg m e w ↔
-    FinS cfg e w ∧ (e.isAbort = true → view cfg w = some (abortedOp m)) ∧
-    (e.isAbort = false → e.isCancelKind = false → view cfg w = some (C13.afterOp m)) :=
-  ⟨fun h => ⟨h.toFinS, h.onAbort, h.onOther⟩, fun h => ⟨h.1, h.2.1, h.2.2⟩⟩
-
-theorem isCancelKind_not_abort {e : Exn} (h : e.isCancelKind = true) : e.isAbort = false := by
-  cases e <;> simp_all [Exn.isCancelKind, Exn.isAbort]
-
-theorem isCancelKind_not_exception {e : Exn} (h : e.isCancelKind = true) : e.isException = false := by
-  cases e <;> simp_all [Exn.isCancelKind, Exn.isException]
-
-theorem opErr_of_cur {cfg : Cfg} {m : St} {e : Exn} {w : World} (hm : Ready cfg m)
+theorem finS_of_op {cfg : Cfg} {m : St} {e : Exn} {w : World} (hm : Ready cfg m)
     (hc : cur cfg w.trace =
       if e.isAbort then abortedOp m else if e.isCancelKind then cancelledOp m e else C13.afterOp m) :
-    OpErr cfg m e w := by
+    FinS cfg e w := by
   have h1 := hm.aborted
   have h2 := hm.cancelled
   have h3 := hm.bad
-  rw [opErr_iff, finS_iff]
+  rw [finS_iff]
   by_cases ha : e.isAbort = true
-  · simp_all [view, viewOf_of_none, abortedOp, Org]
+  · simp_all [abortedOp, Org]
   · by_cases hk : e.isCancelKind = true
-    · have := isCancelKind_not_abort hk
-      simp_all [view, cancelledOp]
-    · simp_all [view, viewOf_of_none, C13.afterOp]
+    · simp_all [cancelledOp]
+    · simp_all [C13.afterOp]
 
 theorem finS_of_sleeper {cfg : Cfg} {m : St} {e : Exn} {w : World} (hm : Ready cfg m)
     (hc : cur cfg w.trace = if e.isCancelKind then cancelledOp m e else C13.afterOp m) :
@@ -622,28 +881,19 @@ theorem finS_of_sleeper {cfg : Cfg} {m : St} {e : Exn} {w : World} (hm : Ready c
   rw [finS_iff]
   by_cases hk : e.isCancelKind = true <;> simp_all [cancelledOp, C13.afterOp]
 
-/-- normalise views to monitor states and let `simp_all` do the rest -/
-macro "c13" : tactic => `(tactic| all_goals (
-  first
-    | ((try subst_vars) <;> (try intros) <;> (try simp only [view, finS_iff, fin_iff] at *) <;>
-       (simp_all +zetaDelta [viewOf_eq_some, viewOf_of_none, step_abortIf, saysAbort, pollOk, Org, Exn.isAbort,
-         Exn.isException, step_op_ok, step_op_raise, step_sleeper_ok, step_sleeper_raise, afterOp, abortedOp,
-         cancelledOp]; done))
-    | skip))
-
 theorem invokeOp_spec (cfg : Cfg) (a : Nat) (m : St) (hm : Ready cfg m) :
     ⦃fun w => ⌜view cfg w = some m⌝⦄ invokeOp a
-    ⦃post⟨fun _ w => ⌜view cfg w = some (C13.afterOp m)⌝, fun e w => ⌜OpErr cfg m e w⌝⟩⦄ := by
+    ⦃post⟨fun _ w => ⌜view cfg w = some (C13.afterOp m)⌝, fun e w => ⌜FinS cfg e w⌝⟩⦄ := by
   have h1 := hm.aborted
   have h2 := hm.cancelled
   have h3 := hm.bad
   mvcgen [invokeOp, ask_cur]
   c13
   all_goals (intros; first
-    | (refine opErr_of_cur hm ?_; simp_all +zetaDelta [view, viewOf_eq_some, step_op_raise]; done)
+    | (refine finS_of_op hm ?_; simp_all +zetaDelta [view, viewOf_eq_some, step_op_raise]; done)
     | (rename_i h
        have := step_op_ok cfg m _ hm h.2
-       refine opErr_of_cur hm ?_
+       refine finS_of_op hm ?_
        simp_all +zetaDelta [view, viewOf_eq_some, Exn.isAbort, Exn.isCancelKind]))
 
 theorem callSleeper_spec (cfg : Cfg) (s : Nat) (m : St) (hm : Ready cfg m) :
@@ -656,87 +906,71 @@ theorem callSleeper_spec (cfg : Cfg) (s : Nat) (m : St) (hm : Ready cfg m) :
   c13
   all_goals (intros; refine finS_of_sleeper hm ?_; simp_all +zetaDelta [view, viewOf_eq_some, step_sleeper_raise])
 
-/-! ### procedures that do not move the view but are not footprint-leaves -/
+/-! ### procedures that keep the view (like leaves) but touch the retry state -/
 
-macro "close_v" : tactic => `(tactic| all_goals (
-  (try subst_vars) <;> (try intros) <;>
+macro "close_l" : tactic => `(tactic| all_goals (
+  (try subst_vars) <;> (try intros) <;> (try simp +zetaDelta only [restore_dummy, view] at *) <;>
   first
-    | assumption
     | rfl
-    | (simp_all +zetaDelta [view]; done)
+    | assumption
+    | (simp_all +zetaDelta; done)
+    | grind [errL_exception, errL_abort, ErrL, view]
     | skip))
 
 section inertProcs
 variable (v : Option St) (cfg : Cfg) (tl : Bool)
 
-theorem budgetConsume_v : ⦃fun w => ⌜view cfg w = v⌝⦄ budgetConsume cfg ⦃same cfg v⦄ := by
-  have hf : ∀ w0, ⦃fun w => ⌜Foot inertK w0 w⌝⦄ budgetConsume cfg ⦃footPost inertK w0⦄ := by
-    intro w0
-    mvcgen [budgetConsume]
-    all_goals (try assumption)
-    all_goals (rename_i h; exact Foot.trans h (Foot.internal _ _ _ _ _ _ rfl))
-  exact view_of_foot (view cfg) hf (view_foot cfg) v
-
-attribute [local spec] budgetConsume_v
-
-theorem stopWith_v (s : StopReason) (ev : Event) (a : Nat) (k : EClass) (e : Option Exn) (c : Cause) :
-    ⦃fun w => ⌜view cfg w = v⌝⦄ stopWith cfg tl s ev a k e c ⦃same cfg v⦄ := by
-  mvcgen [stopWith]
-  close_v
-
-attribute [local spec] stopWith_v
-
-theorem grantRetry_v (c : Classification) (a : Nat) (cause : Cause) (e : Option Exn) (key : SKey)
+theorem grantRetry_l (c : Classification) (a : Nat) (cause : Cause) (e : Option Exn) (key : SKey)
     (kind : SKind) (rem : Nat) :
-    ⦃fun w => ⌜view cfg w = v⌝⦄ grantRetry cfg tl c a cause e key kind rem ⦃same cfg v⦄ := by
+    ⦃fun w => ⌜view cfg w = v⌝⦄ grantRetry cfg tl c a cause e key kind rem ⦃leafPost cfg v⦄ := by
   mvcgen [grantRetry, getRS, modifyRS]
-  close_v
+  close_l
 
-attribute [local spec] grantRetry_v
+attribute [local spec] grantRetry_l
 
-theorem handleFailure2_v (c : Classification) (a : Nat) (cause : Cause) (e : Option Exn) :
-    ⦃fun w => ⌜view cfg w = v⌝⦄ handleFailure2 cfg tl c a cause e ⦃same cfg v⦄ := by
+theorem handleFailure2_l (c : Classification) (a : Nat) (cause : Cause) (e : Option Exn) :
+    ⦃fun w => ⌜view cfg w = v⌝⦄ handleFailure2 cfg tl c a cause e ⦃leafPost cfg v⦄ := by
   mvcgen [handleFailure2, elapsed, modifyRS]
-  close_v
+  close_l
 
-attribute [local spec] handleFailure2_v
+attribute [local spec] handleFailure2_l
 
-theorem handleUnknown_v (c : Classification) (a : Nat) (cause : Cause) (e : Option Exn) :
-    ⦃fun w => ⌜view cfg w = v⌝⦄ handleUnknown cfg tl c a cause e ⦃same cfg v⦄ := by
+theorem handleUnknown_l (c : Classification) (a : Nat) (cause : Cause) (e : Option Exn) :
+    ⦃fun w => ⌜view cfg w = v⌝⦄ handleUnknown cfg tl c a cause e ⦃leafPost cfg v⦄ := by
   mvcgen [handleUnknown, getRS, modifyRS]
-  close_v
+  close_l
 
-attribute [local spec] handleUnknown_v
+attribute [local spec] handleUnknown_l
 
-theorem handleFailure1_v (c : Classification) (a : Nat) (cause : Cause) (e : Option Exn) :
-    ⦃fun w => ⌜view cfg w = v⌝⦄ handleFailure1 cfg tl c a cause e ⦃same cfg v⦄ := by
+theorem handleFailure1_l (c : Classification) (a : Nat) (cause : Cause) (e : Option Exn) :
+    ⦃fun w => ⌜view cfg w = v⌝⦄ handleFailure1 cfg tl c a cause e ⦃leafPost cfg v⦄ := by
   mvcgen [handleFailure1, getRS]
-  close_v
+  close_l
 
-attribute [local spec] handleFailure1_v
+attribute [local spec] handleFailure1_l
 
-theorem handleFailure_v (c : Classification) (a : Nat) (cause : Cause) (e : Option Exn) (r : Option Nat) :
-    ⦃fun w => ⌜view cfg w = v⌝⦄ handleFailure cfg tl c a cause e r ⦃same cfg v⦄ := by
+theorem handleFailure_l (c : Classification) (a : Nat) (cause : Cause) (e : Option Exn) (r : Option Nat) :
+    ⦃fun w => ⌜view cfg w = v⌝⦄ handleFailure cfg tl c a cause e r ⦃leafPost cfg v⦄ := by
   mvcgen [handleFailure, Retry.recordFailure, modifyRS]
-  close_v
+  close_l
 
-attribute [local spec] handleFailure_v
+attribute [local spec] handleFailure_l
 
-theorem handleException_v (e : Exn) (a : Nat) :
-    ⦃fun w => ⌜view cfg w = v⌝⦄ handleException cfg tl e a ⦃same cfg v⦄ := by
+theorem handleException_l (e : Exn) (a : Nat) :
+    ⦃fun w => ⌜view cfg w = v⌝⦄ handleException cfg tl e a ⦃leafPost cfg v⦄ := by
   mvcgen [handleException]
-  close_v
+  close_l
 
-theorem finalizeAttempt_v (a : Nat) (d : Decision) (act : Option SleepDecision)
+theorem finalizeAttempt_l (a : Nat) (d : Decision) (act : Option SleepDecision)
     (cls : Option Classification) (e : Option Exn) (r : Option Nat) (c : Option Cause) :
-    ⦃fun w => ⌜view cfg w = v⌝⦄ finalizeAttempt cfg tl a d act cls e r c ⦃same cfg v⦄ := by
+    ⦃fun w => ⌜view cfg w = v⌝⦄ finalizeAttempt cfg tl a d act cls e r c ⦃leafPost cfg v⦄ := by
   mvcgen [finalizeAttempt, getRS, elapsed]
-  close_v
+  close_l
 
 end inertProcs
 
-attribute [local spec] budgetConsume_v stopWith_v grantRetry_v handleFailure2_v handleUnknown_v
-  handleFailure1_v handleFailure_v handleException_v finalizeAttempt_v
+attribute [local spec] grantRetry_l handleFailure2_l handleUnknown_l handleFailure1_l handleFailure_l
+  handleException_l finalizeAttempt_l
 
 /-! ### the phases as predicates on worlds -/
 
@@ -772,11 +1006,10 @@ theorem invokeOp_w (cfg : Cfg) (a : Nat) :
   intro w hw
   have := adequacy (invokeOp_spec cfg a _ hw) w (view_eq_some.mpr ⟨rfl, hw.cancelled⟩)
   split <;> simp_all
-  · have h := (view_eq_some.mp this).1
-    unfold LiveW
-    rw [h]
-    exact hw.afterOp
-  · exact this.toFinS
+  have h := (view_eq_some.mp this).1
+  unfold LiveW
+  rw [h]
+  exact hw.afterOp
 
 theorem callSleeper_w (cfg : Cfg) (s : Nat) :
     ⦃fun w => ⌜ReadyW cfg w⌝⦄ callSleeper cfg s
@@ -848,12 +1081,12 @@ theorem finS_iff_h {cfg : Cfg} {e : Exn} {w : World} : FinS cfg e w ↔
 macro "c13w" : tactic => `(tactic| all_goals (
   first
     | ((try subst_vars) <;> (try intros) <;> (try simp only [finS_iff, fin_iff]) <;>
-       (try simp only [view, LiveW, ReadyW, QuietW, live_iff, ready_iff, finS_iff_h, fin_iff_h] at *) <;>
+       (try simp +zetaDelta only [restore_dummy, view, LiveW, ReadyW, QuietW, live_iff, ready_iff, finS_iff_h, fin_iff_h, ErrL, CancV] at *) <;>
        (simp_all +zetaDelta [viewOf_eq_some, viewOf_of_none, Org, Exn.isAbort, Exn.isException]; done))
     | ((try subst_vars) <;> (try intros) <;> (try simp only [finS_iff, fin_iff]) <;>
-       (try simp only [view, LiveW, ReadyW, QuietW, live_iff, ready_iff, finS_iff_h, fin_iff_h] at *) <;>
+       (try simp +zetaDelta only [restore_dummy, view, LiveW, ReadyW, QuietW, live_iff, ready_iff, finS_iff_h, fin_iff_h, ErrL, CancV] at *) <;>
        (try simp_all +zetaDelta [viewOf_eq_some, viewOf_of_none, Org, Exn.isAbort, Exn.isException]) <;>
-       grind)
+       grind [isCancelKind_not_abort, isCancelKind_not_exception])
     | skip))
 
 attribute [local spec] checkAbort_w invokeOp_w callSleeper_w
@@ -952,12 +1185,12 @@ abbrev xPost (cfg : Cfg) : PostCond (Option Outcome) (.except Exn (.arg World .p
 macro "c13x" : tactic => `(tactic| all_goals (
   first
     | ((try subst_vars) <;> (try intros) <;> (try simp only [finS_iff, fin_iff]) <;>
-       (try simp only [view, LiveW, ReadyW, QuietW, OkX, FinO, live_iff, ready_iff, finS_iff_h, fin_iff_h] at *) <;>
+       (try simp +zetaDelta only [restore_dummy, view, LiveW, ReadyW, QuietW, OkX, FinO, live_iff, ready_iff, finS_iff_h, fin_iff_h, ErrL, CancV] at *) <;>
        (simp_all +zetaDelta [viewOf_eq_some, viewOf_of_none, Org, Exn.isAbort, Exn.isException]; done))
     | ((try subst_vars) <;> (try intros) <;> (try simp only [finS_iff, fin_iff]) <;>
-       (try simp only [view, LiveW, ReadyW, QuietW, OkX, FinO, live_iff, ready_iff, finS_iff_h, fin_iff_h] at *) <;>
+       (try simp +zetaDelta only [restore_dummy, view, LiveW, ReadyW, QuietW, OkX, FinO, live_iff, ready_iff, finS_iff_h, fin_iff_h, ErrL, CancV] at *) <;>
        (try simp_all +zetaDelta [viewOf_eq_some, viewOf_of_none, Org, Exn.isAbort, Exn.isException]) <;>
-       grind)
+       grind [isCancelKind_not_abort, isCancelKind_not_exception])
     | skip))
 
 theorem execAbortExit_spec (cfg : Cfg) (tl : Bool) (a : Nat) (e : Exn) :
@@ -1049,9 +1282,9 @@ theorem runExecute_spec (cfg : Cfg) :
   mvcgen [runExecute, initState, hl]
   c13x
 
+
 /-! ### policy level -/
 open Policy
-
 
 /-- footprint + origin ⇒ invariance, and knowledge of where an escaping exception comes from -/
 theorem inv_org_of_foot {α : Type} {x : M α} {K : Kind → Bool} {O : Exn → World → Prop}
@@ -1066,11 +1299,6 @@ theorem inv_org_of_foot {α : Type} {x : M α} {K : Kind → Bool} {O : Exn → 
   have h2 := adequacy ho w trivial
   split <;> simp_all <;> exact hI _ _ h1 hw
 
-theorem cur_foot_inert (cfg : Cfg) (w w' : World) (h : Foot inertK w w')
-    (hc : (cur cfg w.trace).cancelled = none) : cur cfg w'.trace = cur cfg w.trace := by
-  obtain ⟨δ, e, k⟩ := h.trace
-  rw [e, cur_append_inert cfg δ _ k hc]
-
 theorem cur_foot_brk (cfg : Cfg) (w w' : World) (h : Foot brkK w w') :
     cur cfg w'.trace = cur cfg w.trace := by
   obtain ⟨δ, e, k⟩ := h.trace
@@ -1083,14 +1311,6 @@ theorem org_foot {K : Kind → Bool} {w w' : World} (e : Exn) (h : Foot K w w') 
   · exact Or.inr (Or.inl h)
   · exact Or.inr (Or.inr (ht ▸ h.mono δ))
 
-theorem brk_sub_inert : ∀ k, brkK k = true → inertK k = true := by
-  intro k; cases k <;> simp [brkK, inertK]
-
-theorem liveW_foot (cfg : Cfg) (w w' : World) (h : Foot inertK w w') (hl : LiveW cfg w) : LiveW cfg w' := by
-  unfold LiveW at *
-  rw [cur_foot_inert cfg w w' h hl.cancelled]
-  exact hl
-
 theorem fin_foot_brk (cfg : Cfg) (e : Exn) (w w' : World) (h : Foot brkK w w') (hf : Fin cfg e w) :
     Fin cfg e w' := by
   have hc := cur_foot_brk cfg w w' h
@@ -1098,34 +1318,88 @@ theorem fin_foot_brk (cfg : Cfg) (e : Exn) (w w' : World) (h : Foot brkK w w') (
   rw [hc]
   exact fun a b => org_foot e h (hf.abt a b)
 
+/-- any predicate of the monitor state survives breaker bookkeeping -/
+theorem pred_foot_brk (cfg : Cfg) (P : St → Prop) (w w' : World) (h : Foot brkK w w')
+    (hp : P (cur cfg w.trace)) : P (cur cfg w'.trace) := by
+  rw [cur_foot_brk cfg w w' h]; exact hp
+
 /-- an exception is in flight that the verdict accepts, and no cancellation has been seen -/
 def PolA (cfg : Cfg) (e : Exn) (w : World) : Prop := Fin cfg e w ∧ (cur cfg w.trace).cancelled = none
 
-theorem polA_foot (cfg : Cfg) (e : Exn) (w w' : World) (h : Foot inertK w w') (hf : PolA cfg e w) :
-    PolA cfg e w' := by
-  have hc := cur_foot_inert cfg w w' h hf.2
-  refine ⟨⟨hc ▸ hf.1.bad, hc ▸ hf.1.canc, ?_⟩, hc ▸ hf.2⟩
-  rw [hc]
-  exact fun a b => org_foot e h (hf.1.abt a b)
-
-/-- from "an acceptable exception `e0` was in flight, no cancellation" to: the one that escapes now
-    is acceptable too -/
-theorem fin_of_polA {cfg : Cfg} {e0 e : Exn} {w : World} (h : PolA cfg e0 w)
-    (ho : e = .stuck ∨ Raised w.trace e) : Fin cfg e w :=
-  ⟨h.1.bad, by simp [h.2], fun _ _ => Or.inr ho⟩
-
-theorem finO_foot (cfg : Cfg) (o : Outcome) (w w' : World) (h : Foot inertK w w') (hf : FinO cfg o w) :
-    FinO cfg o w' := by
-  unfold FinO at *
-  rw [cur_foot_inert cfg w w' h hf.2.1]
-  exact hf
-
-theorem fin_of_finO {cfg : Cfg} {o : Outcome} {e : Exn} {w : World} (h : FinO cfg o w)
-    (ho : e = .stuck ∨ Raised w.trace e) : Fin cfg e w :=
-  ⟨h.1, by simp [h.2.1], fun _ _ => Or.inr ho⟩
-
 theorem fin_of_liveW {cfg : Cfg} {e : Exn} {w : World} (h : LiveW cfg w) : Fin cfg e w :=
   ⟨h.bad, by simp [h.cancelled], by simp [h.aborted]⟩
+
+/-- the whole request vocabulary -/
+def allK : Kind → Bool := fun _ => true
+
+/-- from a view lemma: a procedure started alive ends alive, or raises what the verdict accepts -/
+theorem keep_live_of {α : Type} {x : M α} (cfg : Cfg) (P : St → Prop) (hP : ∀ m, P m → Live m)
+    (hl : ∀ v, ⦃fun w => ⌜view cfg w = v⌝⦄ x ⦃leafPost cfg v⦄) :
+    ⦃fun w => ⌜P (cur cfg w.trace)⌝⦄ x
+    ⦃post⟨fun _ w => ⌜P (cur cfg w.trace)⌝, fun e w => ⌜FinS cfg e w⌝⟩⦄ := by
+  apply triple_of_run
+  intro w hw
+  have hlive := hP _ hw
+  have h1 := adequacy (hl (some (cur cfg w.trace))) w (view_eq_some.mpr ⟨rfl, hlive.cancelled⟩)
+  cases hr : EStateM.run x w with
+  | ok a w' =>
+    simp only [hr] at h1 ⊢
+    rw [(view_eq_some.mp h1).1]; exact hw
+  | error e w' =>
+    simp only [hr] at h1 ⊢
+    exact finS_of_errL h1 hlive.bad (by simp [hlive.aborted])
+
+/-- …a procedure started with no cancellation and nothing wrong (aborted or not) -/
+theorem keep_quiet_of {α : Type} {x : M α} (cfg : Cfg) (P : St → Prop)
+    (hP : ∀ m, P m → m.cancelled = none ∧ m.bad = false)
+    (hl : ∀ v, ⦃fun w => ⌜view cfg w = v⌝⦄ x ⦃leafPost cfg v⦄)
+    (ho : ⦃fun _ => ⌜True⌝⦄ x ⦃orgPostS⦄) :
+    ⦃fun w => ⌜P (cur cfg w.trace)⌝⦄ x
+    ⦃post⟨fun _ w => ⌜P (cur cfg w.trace)⌝, fun e w => ⌜Fin cfg e w⌝⟩⦄ := by
+  apply triple_of_run
+  intro w hw
+  obtain ⟨hc, hb⟩ := hP _ hw
+  have h1 := adequacy (hl (some (cur cfg w.trace))) w (view_eq_some.mpr ⟨rfl, hc⟩)
+  have h2 := adequacy ho w trivial
+  cases hr : EStateM.run x w with
+  | ok a w' =>
+    simp only [hr] at h1 ⊢
+    rw [(view_eq_some.mp h1).1]; exact hw
+  | error e w' =>
+    simp only [hr] at h1 h2 ⊢
+    rcases h1 with h | ⟨hk, m', hm', hcur⟩
+    · obtain ⟨e1, e2⟩ := viewOf_eq_some.mp h
+      exact ⟨e1 ▸ hb, by simp [e2], fun _ _ => Or.inr h2⟩
+    · cases hm'
+      exact (finS_of_canc hk hcur hb).toFin
+
+/-- …a procedure run while an acceptable exception `e0` is in flight (no cancellation so far) -/
+theorem keep_polA_of {α : Type} {x : M α} (cfg : Cfg) (e0 : Exn)
+    (hl : ∀ v, ⦃fun w => ⌜view cfg w = v⌝⦄ x ⦃leafPost cfg v⦄)
+    (ho : ⦃fun _ => ⌜True⌝⦄ x ⦃orgPostS⦄)
+    (hf : ∀ w0, ⦃fun w => ⌜Foot allK w0 w⌝⦄ x ⦃footPost allK w0⦄) :
+    ⦃fun w => ⌜PolA cfg e0 w⌝⦄ x
+    ⦃post⟨fun _ w => ⌜PolA cfg e0 w⌝, fun e w => ⌜Fin cfg e w⌝⟩⦄ := by
+  apply triple_of_run
+  intro w hw
+  obtain ⟨hfin, hc⟩ := hw
+  have h1 := adequacy (hl (some (cur cfg w.trace))) w (view_eq_some.mpr ⟨rfl, hc⟩)
+  have h2 := adequacy ho w trivial
+  have h3 := adequacy (hf w) w (Foot.refl _ w)
+  cases hr : EStateM.run x w with
+  | ok a w' =>
+    simp only [hr] at h1 h3 ⊢
+    have e1 := (view_eq_some.mp h1).1
+    refine ⟨⟨e1 ▸ hfin.bad, e1 ▸ hfin.canc, ?_⟩, e1 ▸ hc⟩
+    rw [e1]
+    exact fun a b => org_foot e0 h3 (hfin.abt a b)
+  | error e w' =>
+    simp only [hr] at h1 h2 ⊢
+    rcases h1 with h | ⟨hk, m', hm', hcur⟩
+    · obtain ⟨e1, e2⟩ := viewOf_eq_some.mp h
+      exact ⟨e1 ▸ hfin.bad, by simp [e2], fun _ _ => Or.inr h2⟩
+    · cases hm'
+      exact (finS_of_canc hk hcur hfin.bad).toFin
 
 /-- rule of consequence -/
 theorem weaken {α : Type} {x : M α} {P P' : World → Prop} {Q Q' : α → World → Prop}
@@ -1156,15 +1430,18 @@ theorem withFinally_rule {α : Type} {x : M α} {fin : M Unit} {P : World → Pr
     ⦃fun w => ⌜P w⌝⦄ withFinally x fin ⦃post⟨fun a w => ⌜Q' a w⌝, fun e w => ⌜E' e w⌝⟩⦄ :=
   finally_rule hx herr hok
 
+
 macro "c13p" : tactic => `(tactic| all_goals (
   first
     | ((try subst_vars) <;> (try intros) <;> (try simp only [finS_iff, fin_iff]) <;>
-       (try simp only [view, LiveW, ReadyW, QuietW, OkX, FinO, PolA, live_iff, ready_iff, finS_iff_h, fin_iff_h] at *) <;>
+       (try simp +zetaDelta only [restore_dummy, view, LiveW, ReadyW, QuietW, OkX, FinO, PolA, live_iff, ready_iff,
+         finS_iff_h, fin_iff_h, ErrL, CancV] at *) <;>
        (simp_all +zetaDelta [viewOf_eq_some, viewOf_of_none, Org, Exn.isAbort, Exn.isException]; done))
     | ((try subst_vars) <;> (try intros) <;> (try simp only [finS_iff, fin_iff]) <;>
-       (try simp only [view, LiveW, ReadyW, QuietW, OkX, FinO, PolA, live_iff, ready_iff, finS_iff_h, fin_iff_h] at *) <;>
+       (try simp +zetaDelta only [restore_dummy, view, LiveW, ReadyW, QuietW, OkX, FinO, PolA, live_iff, ready_iff,
+         finS_iff_h, fin_iff_h, ErrL, CancV] at *) <;>
        (try simp_all +zetaDelta [viewOf_eq_some, viewOf_of_none, Org, Exn.isAbort, Exn.isException]) <;>
-       grind)
+       grind [isCancelKind_not_abort, isCancelKind_not_exception])
     | skip))
 
 section policySpecs
@@ -1183,51 +1460,55 @@ theorem ensureSettled_fin (e0 : Exn) :
   inv_org_of_foot (Fin cfg e0) (fun w0 => ensureSettled_foot brkK w0 rfl cfg) (ensureSettled_never cfg)
     (fin_foot_brk cfg e0)
 
+/-- …and any predicate of the monitor state -/
+theorem ensureSettled_pred (P : St → Prop) :
+    ⦃fun w => ⌜P (cur cfg w.trace)⌝⦄ ensureSettled cfg
+    ⦃post⟨fun _ w => ⌜P (cur cfg w.trace)⌝, fun _ w => ⌜P (cur cfg w.trace) ∧ False⌝⟩⦄ :=
+  inv_org_of_foot (fun w => P (cur cfg w.trace)) (fun w0 => ensureSettled_foot brkK w0 rfl cfg)
+    (ensureSettled_never cfg) (pred_foot_brk cfg P)
+
+theorem recordCancel_pred (P : St → Prop) :
+    ⦃fun w => ⌜P (cur cfg w.trace)⌝⦄ Policy.recordCancel cfg
+    ⦃post⟨fun _ w => ⌜P (cur cfg w.trace)⌝, fun _ w => ⌜P (cur cfg w.trace) ∧ False⌝⟩⦄ :=
+  inv_org_of_foot (fun w => P (cur cfg w.trace)) (fun w0 => recordCancel_foot brkK w0 rfl cfg)
+    (recordCancel_never cfg) (pred_foot_brk cfg P)
+
 theorem ensureSettled_live :
     ⦃fun w => ⌜LiveW cfg w⌝⦄ ensureSettled cfg
-    ⦃post⟨fun _ w => ⌜LiveW cfg w⌝, fun _ w => ⌜LiveW cfg w ∧ False⌝⟩⦄ :=
-  inv_org_of_foot (LiveW cfg) (fun w0 => ensureSettled_foot inertK w0 rfl cfg) (ensureSettled_never cfg)
-    (liveW_foot cfg)
+    ⦃post⟨fun _ w => ⌜LiveW cfg w⌝, fun _ w => ⌜LiveW cfg w ∧ False⌝⟩⦄ := ensureSettled_pred cfg Live
 
 theorem ensureSettled_finO (o : Outcome) :
     ⦃fun w => ⌜FinO cfg o w⌝⦄ ensureSettled cfg
     ⦃post⟨fun _ w => ⌜FinO cfg o w⌝, fun _ w => ⌜FinO cfg o w ∧ False⌝⟩⦄ :=
-  inv_org_of_foot (FinO cfg o) (fun w0 => ensureSettled_foot inertK w0 rfl cfg) (ensureSettled_never cfg)
-    (finO_foot cfg o)
+  ensureSettled_pred cfg (fun m => m.bad = false ∧ m.cancelled = none ∧ (m.aborted = true → o.stop = some .aborted))
 
 theorem handleExhaustedCall_polA (e0 e : Exn) :
     ⦃fun w => ⌜PolA cfg e0 w⌝⦄ handleExhaustedCall cfg e
-    ⦃post⟨fun _ w => ⌜PolA cfg e0 w⌝, fun e' w => ⌜PolA cfg e0 w ∧ (e' = .stuck ∨ Raised w.trace e')⌝⟩⦄ :=
-  inv_org_of_foot (PolA cfg e0) (fun w0 => handleExhaustedCall_foot inertK w0 rfl rfl rfl cfg e)
-    (handleExhaustedCall_org cfg e) (polA_foot cfg e0)
+    ⦃post⟨fun _ w => ⌜PolA cfg e0 w⌝, fun e' w => ⌜Fin cfg e' w⌝⟩⦄ :=
+  keep_polA_of cfg e0 (fun v => handleExhaustedCall_l cfg v e) (handleExhaustedCall_org cfg e)
+    (fun w0 => handleExhaustedCall_foot allK w0 rfl rfl rfl cfg e)
 
 theorem handleExceptionCall_polA (e0 e : Exn) (b : Bool) :
     ⦃fun w => ⌜PolA cfg e0 w⌝⦄ handleExceptionCall cfg e b
-    ⦃post⟨fun _ w => ⌜PolA cfg e0 w⌝, fun e' w => ⌜PolA cfg e0 w ∧ (e' = .stuck ∨ Raised w.trace e')⌝⟩⦄ :=
-  inv_org_of_foot (PolA cfg e0) (fun w0 => handleExceptionCall_foot inertK w0 rfl rfl rfl rfl rfl cfg e b)
-    (handleExceptionCall_org cfg e b) (polA_foot cfg e0)
+    ⦃post⟨fun _ w => ⌜PolA cfg e0 w⌝, fun e' w => ⌜Fin cfg e' w⌝⟩⦄ :=
+  keep_polA_of cfg e0 (fun v => handleExceptionCall_l cfg v e b) (handleExceptionCall_org cfg e b)
+    (fun w0 => handleExceptionCall_foot allK w0 rfl rfl rfl rfl rfl cfg e b)
 
 theorem handleAbortCall_polA (e0 e : Exn) :
     ⦃fun w => ⌜PolA cfg e0 w⌝⦄ handleAbortCall cfg e
-    ⦃post⟨fun _ w => ⌜PolA cfg e0 w⌝, fun e' w => ⌜PolA cfg e0 w ∧ (e' = .stuck ∨ Raised w.trace e')⌝⟩⦄ :=
-  inv_org_of_foot (PolA cfg e0) (fun w0 => handleAbortCall_foot inertK w0 rfl rfl cfg e)
-    (handleAbortCall_org cfg e) (polA_foot cfg e0)
+    ⦃post⟨fun _ w => ⌜PolA cfg e0 w⌝, fun e' w => ⌜Fin cfg e' w⌝⟩⦄ :=
+  keep_polA_of cfg e0 (fun v => handleAbortCall_l cfg v e) (handleAbortCall_org cfg e)
+    (fun w0 => handleAbortCall_foot allK w0 rfl rfl cfg e)
 
 theorem recordSuccess_live :
     ⦃fun w => ⌜LiveW cfg w⌝⦄ Policy.recordSuccess cfg
-    ⦃post⟨fun _ w => ⌜LiveW cfg w⌝, fun e' w => ⌜LiveW cfg w ∧ (e' = .stuck ∨ Raised w.trace e')⌝⟩⦄ :=
-  inv_org_of_foot (LiveW cfg) (fun w0 => recordSuccess_foot inertK w0 rfl rfl rfl cfg)
-    (recordSuccess_org cfg) (liveW_foot cfg)
+    ⦃post⟨fun _ w => ⌜LiveW cfg w⌝, fun e' w => ⌜FinS cfg e' w⌝⟩⦄ :=
+  keep_live_of cfg Live (fun _ h => h) (fun v => recordSuccess_l cfg v)
 
 theorem checkBreaker_live :
     ⦃fun w => ⌜LiveW cfg w⌝⦄ checkBreaker cfg
-    ⦃post⟨fun _ w => ⌜LiveW cfg w⌝, fun _ w => ⌜LiveW cfg w⌝⟩⦄ :=
-  inv_of_foot (LiveW cfg) (fun w0 => checkBreaker_foot inertK w0 rfl rfl rfl cfg) (liveW_foot cfg)
-
-theorem initCtx_live :
-    ⦃fun w => ⌜LiveW cfg w⌝⦄ initCtx
-    ⦃post⟨fun _ w => ⌜LiveW cfg w⌝, fun _ w => ⌜LiveW cfg w⌝⟩⦄ :=
-  inv_of_foot (LiveW cfg) (fun w0 => initCtx_foot inertK w0) (liveW_foot cfg)
+    ⦃post⟨fun _ w => ⌜LiveW cfg w⌝, fun e' w => ⌜FinS cfg e' w⌝⟩⦄ :=
+  keep_live_of cfg Live (fun _ h => h) (fun v => checkBreaker_l cfg v)
 
 /-- the `except` ladder of `Policy.call`: whatever was in flight stays acceptable; after a
     cancellation only `record_cancel` happens -/
@@ -1255,7 +1536,7 @@ theorem callAdmitted_retry (hret : cfg.hasRetry = true) :
 /-- `Policy.call` with a retry component -/
 theorem call_retry_spec (hret : cfg.hasRetry = true) :
     ⦃fun w => ⌜LiveW cfg w⌝⦄ Policy.call cfg ⦃livePost cfg⦄ := by
-  have h0 := initCtx_live cfg
+  have h0 := initCtx_l
   have hw : ⦃fun w => ⌜LiveW cfg w⌝⦄ withFinally (callAdmitted cfg) (ensureSettled cfg) ⦃livePost cfg⦄ :=
     withFinally_rule (callAdmitted_retry cfg hret)
       (fun e => weaken (ensureSettled_fin cfg e) (fun _ h => h) (fun _ _ h => h) (fun _ _ h => h.2.elim))
@@ -1272,23 +1553,23 @@ theorem executeLadder_spec (e : Exn) :
   mvcgen [executeLadder, h1, h3, h4]
   c13p
 
+
 theorem recordSuccess_finO (o : Outcome) :
     ⦃fun w => ⌜FinO cfg o w⌝⦄ Policy.recordSuccess cfg
-    ⦃post⟨fun _ w => ⌜FinO cfg o w⌝, fun e' w => ⌜FinO cfg o w ∧ (e' = .stuck ∨ Raised w.trace e')⌝⟩⦄ :=
-  inv_org_of_foot (FinO cfg o) (fun w0 => recordSuccess_foot inertK w0 rfl rfl rfl cfg)
-    (recordSuccess_org cfg) (finO_foot cfg o)
+    ⦃post⟨fun _ w => ⌜FinO cfg o w⌝, fun e' w => ⌜Fin cfg e' w⌝⟩⦄ :=
+  keep_quiet_of cfg (fun m => m.bad = false ∧ m.cancelled = none ∧ (m.aborted = true → o.stop = some .aborted))
+    (fun _ h => ⟨h.2.1, h.1⟩) (fun v => recordSuccess_l cfg v) (recordSuccess_org cfg)
 
 theorem recordFailure_finO (o : Outcome) (k : EClass) :
     ⦃fun w => ⌜FinO cfg o w⌝⦄ Policy.recordFailure cfg k
-    ⦃post⟨fun _ w => ⌜FinO cfg o w⌝, fun e' w => ⌜FinO cfg o w ∧ (e' = .stuck ∨ Raised w.trace e')⌝⟩⦄ :=
-  inv_org_of_foot (FinO cfg o) (fun w0 => recordFailure_foot inertK w0 rfl rfl rfl cfg k)
-    (recordFailure_org cfg k) (finO_foot cfg o)
+    ⦃post⟨fun _ w => ⌜FinO cfg o w⌝, fun e' w => ⌜Fin cfg e' w⌝⟩⦄ :=
+  keep_quiet_of cfg (fun m => m.bad = false ∧ m.cancelled = none ∧ (m.aborted = true → o.stop = some .aborted))
+    (fun _ h => ⟨h.2.1, h.1⟩) (fun v => recordFailure_l cfg v k) (recordFailure_org cfg k)
 
 theorem recordCancel_finO (o : Outcome) :
     ⦃fun w => ⌜FinO cfg o w⌝⦄ Policy.recordCancel cfg
     ⦃post⟨fun _ w => ⌜FinO cfg o w⌝, fun _ w => ⌜FinO cfg o w ∧ False⌝⟩⦄ :=
-  inv_org_of_foot (FinO cfg o) (fun w0 => recordCancel_foot inertK w0 rfl cfg)
-    (recordCancel_never cfg) (finO_foot cfg o)
+  recordCancel_pred cfg (fun m => m.bad = false ∧ m.cancelled = none ∧ (m.aborted = true → o.stop = some .aborted))
 
 abbrev outPost (cfg : Cfg) : PostCond Outcome (.except Exn (.arg World .pure)) :=
   post⟨fun o w => ⌜FinO cfg o w⌝, fun e w => ⌜Fin cfg e w⌝⟩
@@ -1303,22 +1584,11 @@ theorem executeWithRetry_spec :
   mvcgen [executeWithRetry, h1, h2, h3, h4, h5]
   c13p
 
-theorem policyOutcome_live (ok : Bool) (value : Option Nat) (stop : Option StopReason) (attempts : Nat)
-    (lc : Option EClass) (le : Option String) (cause : Option Cause) :
-    ⦃fun w => ⌜LiveW cfg w⌝⦄ policyOutcome ok value stop attempts lc le cause
-    ⦃post⟨fun _ w => ⌜LiveW cfg w⌝, fun _ w => ⌜LiveW cfg w⌝⟩⦄ :=
-  inv_of_foot (LiveW cfg) (fun w0 => policyOutcome_foot inertK w0 ok value stop attempts lc le cause)
-    (liveW_foot cfg)
-
-theorem breakerAllow_live (bc : Breaker.Cfg) :
-    ⦃fun w => ⌜LiveW cfg w⌝⦄ breakerAllow bc
-    ⦃post⟨fun _ w => ⌜LiveW cfg w⌝, fun _ w => ⌜LiveW cfg w⌝⟩⦄ :=
-  inv_of_foot (LiveW cfg) (fun w0 => breakerAllow_foot inertK w0 rfl bc) (liveW_foot cfg)
 
 theorem emitBreakerEvent_live (ev : Option Event) (st : CState) (k : Option EClass) :
     ⦃fun w => ⌜LiveW cfg w⌝⦄ emitBreakerEvent cfg ev st k
-    ⦃post⟨fun _ w => ⌜LiveW cfg w⌝, fun _ w => ⌜LiveW cfg w⌝⟩⦄ :=
-  inv_of_foot (LiveW cfg) (fun w0 => emitBreakerEvent_foot inertK w0 rfl rfl cfg ev st k) (liveW_foot cfg)
+    ⦃post⟨fun _ w => ⌜LiveW cfg w⌝, fun e' w => ⌜FinS cfg e' w⌝⟩⦄ :=
+  keep_live_of cfg Live (fun _ h => h) (fun v => emitBreakerEvent_l cfg v ev st k)
 
 theorem executeAdmitted2_retry (hret : cfg.hasRetry = true) :
     ⦃fun w => ⌜LiveW cfg w⌝⦄ executeAdmitted2 cfg ⦃outPost cfg⦄ := by
@@ -1331,16 +1601,16 @@ theorem executeAdmitted2_retry (hret : cfg.hasRetry = true) :
 theorem executeAdmitted_retry (hret : cfg.hasRetry = true) :
     ⦃fun w => ⌜LiveW cfg w⌝⦄ executeAdmitted cfg ⦃outPost cfg⦄ := by
   have h1 := executeAdmitted2_retry cfg hret
-  have h2 := breakerAllow_live cfg
+  have h2 := breakerAllow_l cfg
   have h3 := emitBreakerEvent_live cfg
-  have h4 := policyOutcome_live cfg
+  have h4 := policyOutcome_l
   mvcgen [executeAdmitted, h1, h2, h3, h4]
   c13p
 
 /-- `Policy.execute` with a retry component -/
 theorem execute_retry_spec (hret : cfg.hasRetry = true) :
     ⦃fun w => ⌜LiveW cfg w⌝⦄ Policy.execute cfg ⦃outPost cfg⦄ := by
-  have h0 := initCtx_live cfg
+  have h0 := initCtx_l
   have hw : ⦃fun w => ⌜LiveW cfg w⌝⦄ withFinally (executeAdmitted cfg) (ensureSettled cfg) ⦃outPost cfg⦄ :=
     withFinally_rule (executeAdmitted_retry cfg hret)
       (fun e => weaken (ensureSettled_fin cfg e) (fun _ h => h) (fun _ _ h => h) (fun _ _ h => h.2.elim))
@@ -1348,14 +1618,10 @@ theorem execute_retry_spec (hret : cfg.hasRetry = true) :
   mvcgen [Policy.execute, h0, hw]
   c13p
 
+
 end policySpecs
 
 /-! ### policies without a retry component -/
-
-theorem recordCancel_v (v : Option St) (cfg : Cfg) :
-    ⦃fun w => ⌜view cfg w = v⌝⦄ Policy.recordCancel cfg
-    ⦃post⟨fun _ w => ⌜view cfg w = v⌝, fun _ w => ⌜view cfg w = v ∧ False⌝⟩⦄ :=
-  leaf_of cfg (fun w0 => recordCancel_foot inertK w0 rfl cfg) (recordCancel_never cfg) v
 
 theorem checkAbortNoRetry_spec (cfg : Cfg) (m : St) (hm : Live m) :
     ⦃fun w => ⌜view cfg w = some m⌝⦄ checkAbortNoRetry cfg
@@ -1363,11 +1629,9 @@ theorem checkAbortNoRetry_spec (cfg : Cfg) (m : St) (hm : Live m) :
               (b = true → view cfg w = some { m with polled := true, aborted := true })⌝,
           fun e w => ⌜FinS cfg e w⌝⟩⦄ := by
   obtain ⟨h1, h2, h3⟩ := hm
-  have hrc := recordCancel_v
+  have hrc := recordCancel_l cfg
   mvcgen [checkAbortNoRetry, ask_cur, hrc]
-  all_goals ((try subst_vars) <;> (try intros) <;> (try simp only [view, finS_iff] at *) <;>
-    simp_all [viewOf_eq_some, viewOf_of_none, step_abortIf, saysAbort, pollOk, Org, Exn.isAbort,
-      Exn.isException])
+  c13
 
 theorem checkAbortNoRetry_w (cfg : Cfg) :
     ⦃fun w => ⌜LiveW cfg w⌝⦄ checkAbortNoRetry cfg
@@ -1393,18 +1657,14 @@ variable (cfg : Cfg)
 
 theorem noRetryStartHook_ready :
     ⦃fun w => ⌜ReadyW cfg w⌝⦄ noRetryStartHook cfg
-    ⦃post⟨fun _ w => ⌜ReadyW cfg w⌝, fun _ w => ⌜ReadyW cfg w⌝⟩⦄ :=
-  inv_of_foot (ReadyW cfg) (fun w0 => noRetryStartHook_foot inertK w0 rfl cfg) (fun w w' h hr => by
-    unfold ReadyW at *
-    rw [cur_foot_inert cfg w w' h hr.cancelled]
-    exact hr)
+    ⦃post⟨fun _ w => ⌜ReadyW cfg w⌝, fun e w => ⌜FinS cfg e w⌝⟩⦄ :=
+  keep_live_of cfg (Ready cfg) (fun _ h => h.toLive) (fun v => noRetryStartHook_l cfg v)
 
 theorem noRetryEndHook_live (exc : Option Exn) (r : Option Nat) (d : AttemptDecision)
     (stop : Option StopReason) (cause : Option Cause) :
     ⦃fun w => ⌜LiveW cfg w⌝⦄ noRetryEndHook cfg exc r d stop cause
-    ⦃post⟨fun _ w => ⌜LiveW cfg w⌝, fun _ w => ⌜LiveW cfg w⌝⟩⦄ :=
-  inv_of_foot (LiveW cfg) (fun w0 => noRetryEndHook_foot inertK w0 rfl cfg exc r d stop cause)
-    (liveW_foot cfg)
+    ⦃post⟨fun _ w => ⌜LiveW cfg w⌝, fun e w => ⌜FinS cfg e w⌝⟩⦄ :=
+  keep_live_of cfg Live (fun _ h => h) (fun v => noRetryEndHook_l cfg v exc r d stop cause)
 
 theorem callWithoutRetry_spec :
     ⦃fun w => ⌜ReadyW cfg w⌝⦄ callWithoutRetry cfg
@@ -1430,7 +1690,7 @@ theorem callAdmitted_nr (hret : cfg.hasRetry = false) :
 /-- `Policy.call` without a retry component -/
 theorem call_nr_spec (hret : cfg.hasRetry = false) :
     ⦃fun w => ⌜LiveW cfg w⌝⦄ Policy.call cfg ⦃livePost cfg⦄ := by
-  have h0 := initCtx_live cfg
+  have h0 := initCtx_l
   have hw : ⦃fun w => ⌜LiveW cfg w⌝⦄ withFinally (callAdmitted cfg) (ensureSettled cfg) ⦃livePost cfg⦄ :=
     withFinally_rule (callAdmitted_nr cfg hret)
       (fun e => weaken (ensureSettled_fin cfg e) (fun _ h => h) (fun _ _ h => h) (fun _ _ h => h.2.elim))
@@ -1438,34 +1698,22 @@ theorem call_nr_spec (hret : cfg.hasRetry = false) :
   mvcgen [Policy.call, h0, hw]
   c13p
 
-theorem quietW_foot (w w' : World) (h : Foot inertK w w') (hq : QuietW cfg w) : QuietW cfg w' := by
-  unfold QuietW at *
-  rw [cur_foot_inert cfg w w' h hq.1]
-  exact hq
-
 theorem noRetryEndHook_quiet (exc : Option Exn) (r : Option Nat) (d : AttemptDecision)
     (stop : Option StopReason) (cause : Option Cause) :
     ⦃fun w => ⌜QuietW cfg w⌝⦄ noRetryEndHook cfg exc r d stop cause
-    ⦃post⟨fun _ w => ⌜QuietW cfg w⌝, fun e' w => ⌜QuietW cfg w ∧ (e' = .stuck ∨ Raised w.trace e')⌝⟩⦄ :=
-  inv_org_of_foot (QuietW cfg) (fun w0 => noRetryEndHook_foot inertK w0 rfl cfg exc r d stop cause)
-    (noRetryEndHook_org cfg exc r d stop cause) (quietW_foot cfg)
-
-theorem policyOutcome_quiet (ok : Bool) (value : Option Nat) (stop : Option StopReason) (attempts : Nat)
-    (lc : Option EClass) (le : Option String) (cause : Option Cause) :
-    ⦃fun w => ⌜QuietW cfg w⌝⦄ policyOutcome ok value stop attempts lc le cause
-    ⦃post⟨fun o w => ⌜o.stop = stop ∧ QuietW cfg w⌝, fun _ _ => ⌜False⌝⟩⦄ := by
-  mvcgen [policyOutcome, xElapsed]
+    ⦃post⟨fun _ w => ⌜QuietW cfg w⌝, fun e' w => ⌜Fin cfg e' w⌝⟩⦄ :=
+  keep_quiet_of cfg (fun m => m.cancelled = none ∧ m.bad = false) (fun _ h => h)
+    (fun v => noRetryEndHook_l cfg v exc r d stop cause) (noRetryEndHook_org cfg exc r d stop cause)
 
 theorem recordCancel_quiet :
     ⦃fun w => ⌜QuietW cfg w⌝⦄ Policy.recordCancel cfg
     ⦃post⟨fun _ w => ⌜QuietW cfg w⌝, fun _ w => ⌜QuietW cfg w ∧ False⌝⟩⦄ :=
-  inv_org_of_foot (QuietW cfg) (fun w0 => recordCancel_foot inertK w0 rfl cfg) (recordCancel_never cfg)
-    (quietW_foot cfg)
+  recordCancel_pred cfg (fun m => m.cancelled = none ∧ m.bad = false)
 
 theorem recordFailure_live (k : EClass) :
     ⦃fun w => ⌜LiveW cfg w⌝⦄ Policy.recordFailure cfg k
-    ⦃post⟨fun _ w => ⌜LiveW cfg w⌝, fun _ w => ⌜LiveW cfg w⌝⟩⦄ :=
-  inv_of_foot (LiveW cfg) (fun w0 => recordFailure_foot inertK w0 rfl rfl rfl cfg k) (liveW_foot cfg)
+    ⦃post⟨fun _ w => ⌜LiveW cfg w⌝, fun e w => ⌜FinS cfg e w⌝⟩⦄ :=
+  keep_live_of cfg Live (fun _ h => h) (fun v => recordFailure_l cfg v k)
 
 /-- the `except` ladder of `_execute_without_retry` -/
 theorem noRetryLadder_spec (e : Exn) :
@@ -1473,7 +1721,7 @@ theorem noRetryLadder_spec (e : Exn) :
   by_cases ha : e.isAbort = true
   · have h1 := recordCancel_quiet cfg
     have h2 := noRetryEndHook_quiet cfg
-    have h3 := policyOutcome_quiet cfg
+    have h3 := policyOutcome_l
     unfold noRetryLadder
     simp only [ha, if_true]
     mvcgen [h1, h2, h3]
@@ -1483,7 +1731,7 @@ theorem noRetryLadder_spec (e : Exn) :
       have hk : e.isKiSe = false := by cases e <;> simp_all [Exn.isKiSe, Exn.isException]
       have h1 := recordFailure_live cfg
       have h2 := noRetryEndHook_live cfg
-      have h3 := policyOutcome_live cfg
+      have h3 := policyOutcome_l
       unfold noRetryLadder
       simp only [ha, hc, hk, hx, Bool.false_eq_true, if_false, if_true, Bool.and_false, decide_false]
       mvcgen [h1, h2, h3]
@@ -1501,7 +1749,7 @@ theorem executeWithoutRetry_spec :
   have h3 := noRetryLadder_spec cfg
   have h4 := recordSuccess_live cfg
   have h5 := noRetryEndHook_live cfg
-  have h6 := policyOutcome_live cfg
+  have h6 := policyOutcome_l
   mvcgen [executeWithoutRetry, h1, h2, h3, h4, h5, h6]
   c13p
 
@@ -1509,7 +1757,7 @@ theorem executeAdmitted2_nr (hret : cfg.hasRetry = false) :
     ⦃fun w => ⌜LiveW cfg w⌝⦄ executeAdmitted2 cfg ⦃outPost cfg⦄ := by
   have h1 := executeWithoutRetry_spec cfg
   have h2 := checkAbortNoRetry_w cfg
-  have h3 := policyOutcome_quiet cfg
+  have h3 := policyOutcome_l
   unfold executeAdmitted2
   simp only [hret, Bool.false_eq_true, if_false]
   mvcgen [h1, h2, h3]
@@ -1518,16 +1766,16 @@ theorem executeAdmitted2_nr (hret : cfg.hasRetry = false) :
 theorem executeAdmitted_nr (hret : cfg.hasRetry = false) :
     ⦃fun w => ⌜LiveW cfg w⌝⦄ executeAdmitted cfg ⦃outPost cfg⦄ := by
   have h1 := executeAdmitted2_nr cfg hret
-  have h2 := breakerAllow_live cfg
+  have h2 := breakerAllow_l cfg
   have h3 := emitBreakerEvent_live cfg
-  have h4 := policyOutcome_live cfg
+  have h4 := policyOutcome_l
   mvcgen [executeAdmitted, h1, h2, h3, h4]
   c13p
 
 /-- `Policy.execute` without a retry component -/
 theorem execute_nr_spec (hret : cfg.hasRetry = false) :
     ⦃fun w => ⌜LiveW cfg w⌝⦄ Policy.execute cfg ⦃outPost cfg⦄ := by
-  have h0 := initCtx_live cfg
+  have h0 := initCtx_l
   have hw : ⦃fun w => ⌜LiveW cfg w⌝⦄ withFinally (executeAdmitted cfg) (ensureSettled cfg) ⦃outPost cfg⦄ :=
     withFinally_rule (executeAdmitted_nr cfg hret)
       (fun e => weaken (ensureSettled_fin cfg e) (fun _ h => h) (fun _ _ h => h) (fun _ _ h => h.2.elim))
@@ -1592,9 +1840,12 @@ the abort/cancellation monitor:
 * once a poll answered True or the operation raised `AbortRetryError`, the operation is not invoked
   again and no sleep is started, and the call ends with `AbortRetryError` / an ABORTED outcome (or
   with the error some *other* callback raised afterwards);
-* once the operation or a sleep raised CancelledError / KeyboardInterrupt / SystemExit /
-  GeneratorExit, nothing but breaker bookkeeping follows (no classification, retry, sleep, hook or
-  event) and the call raises exactly that exception.
+* once ANY callback — the operation, a sleep, the abort predicate, an attempt hook, a classifier, a
+  strategy, a sleep handler, a before-sleep hook, a metric or log hook (every await point of an async
+  run) — raised CancelledError / KeyboardInterrupt / SystemExit / GeneratorExit, nothing but breaker
+  bookkeeping follows (`record_cancel` in the `except` arms of `Policy.call/execute`, `ensure_settled`
+  in their `finally`: no classification, retry, sleep, hook or event) and the call raises exactly
+  that exception.
 -/
 theorem abort_cancel_hold (cfg : Cfg) (e : Entry) (w : World) :
     Mon.C13.ok cfg e (runEntry cfg e w).2.trace.reverse (runEntry cfg e w).1 = true := by
@@ -1659,52 +1910,114 @@ theorem abort_cancel_hold_script (cfg : Cfg) : ∀ (steps : List Step) (w : Worl
       · exact abort_cancel_hold cfg e w
       · exact ih _ l hl
 
+
 /-! ### the conjuncts, read off the accepted log -/
 
 theorem run_append (cfg : Cfg) (p q : Trace) : run cfg (p ++ q) = q.foldl (step cfg) (run cfg p) := by
   simp [run, List.foldl_append]
 
-theorem bad_step (cfg : Cfg) (s : St) (x : Req × Ans) (h : (step cfg s x).bad = false) : s.bad = false := by
+theorem stepLive_bad (cfg : Cfg) (s : St) (x : Req × Ans) (h : (stepLive cfg s x).bad = false) :
+    s.bad = false := by
   obtain ⟨r, a⟩ := x
   cases hb : s.bad with
   | false => rfl
   | true =>
     exfalso
     revert h
-    cases r <;> simp [step, hb] <;> (repeat' split) <;> simp_all
+    cases r <;> simp [stepLive, hb] <;> (repeat' split) <;> simp_all
+
+theorem cancelMark_bad (s : St) (a : Ans) : (cancelMark s a).bad = s.bad := by
+  unfold cancelMark
+  (repeat' split) <;> rfl
+
+theorem cancelMark_polled (s : St) (a : Ans) : (cancelMark s a).polled = s.polled := by
+  unfold cancelMark
+  (repeat' split) <;> rfl
+
+theorem cancelMark_aborted (s : St) (a : Ans) : (cancelMark s a).aborted = s.aborted := by
+  unfold cancelMark
+  (repeat' split) <;> rfl
+
+theorem stepLive_record (cfg : Cfg) (s : St) (x : Req × Ans) (h : isRecord x.1 = true) :
+    stepLive cfg s x = s := stepLive_inert cfg s x (isRecord_inert _ h)
+
+theorem stepLive_cancelled (cfg : Cfg) (s : St) (x : Req × Ans) :
+    (stepLive cfg s x).cancelled = s.cancelled := by
+  obtain ⟨r, a⟩ := x
+  cases r <;> simp [stepLive] <;> (repeat' split) <;> rfl
+
+/-- while no cancellation has been seen, a step is its poll/attempt/sleep/abort part plus the mark -/
+theorem step_live (cfg : Cfg) (s : St) (x : Req × Ans) (hc : s.cancelled = none) :
+    (step cfg s x).bad = (stepLive cfg s x).bad ∧ (step cfg s x).polled = (stepLive cfg s x).polled ∧
+    (step cfg s x).aborted = (stepLive cfg s x).aborted := by
+  rw [step_none cfg s x hc]
+  split
+  · rename_i h; rw [stepLive_record cfg s x h]; exact ⟨rfl, rfl, rfl⟩
+  · exact ⟨cancelMark_bad _ _, cancelMark_polled _ _, cancelMark_aborted _ _⟩
+
+theorem bad_step (cfg : Cfg) (s : St) (x : Req × Ans) (h : (step cfg s x).bad = false) : s.bad = false := by
+  cases hc : s.cancelled with
+  | none => exact stepLive_bad cfg s x ((step_live cfg s x hc).1 ▸ h)
+  | some c =>
+    unfold step at h
+    simp only [hc] at h
+    split at h
+    · exact h
+    · simp at h
 
 theorem bad_fold (cfg : Cfg) (q : Trace) : ∀ s, (q.foldl (step cfg) s).bad = false → s.bad = false := by
   induction q with
   | nil => exact fun _ h => h
   | cons x q ih => exact fun s h => bad_step cfg s x (ih _ h)
 
-/-- the monitor state before the exchange `x` of an accepted log `p ++ x :: q` is not `bad`, and
-    neither is the state after it -/
+/-- the monitor state after the exchange `x` of an accepted log `p ++ x :: q` is not `bad` -/
 theorem bad_at (cfg : Cfg) (p q : Trace) (x : Req × Ans) (h : (run cfg (p ++ x :: q)).bad = false) :
     (step cfg (run cfg p) x).bad = false := by
   rw [run_append] at h
   exact bad_fold cfg q _ h
 
+/-- …so if `x` is not breaker bookkeeping, no cancellation had been seen before it -/
+theorem live_at (cfg : Cfg) (s : St) (x : Req × Ans) (hx : isRecord x.1 = false)
+    (h : (step cfg s x).bad = false) : s.cancelled = none := by
+  cases hc : s.cancelled with
+  | none => rfl
+  | some c =>
+    unfold step at h
+    simp [hc, hx] at h
+
+theorem cancelled_none_step (cfg : Cfg) (s : St) (x : Req × Ans) (h : (step cfg s x).cancelled = none) :
+    s.cancelled = none := by
+  cases hc : s.cancelled with
+  | none => rfl
+  | some c => rw [step_some cfg s x c hc] at h; cases h
+
+theorem op_not_record (r : Req) (h : isOp r = true ∨ isSleeper r = true) : isRecord r = false := by
+  cases r <;> simp_all [isOp, isSleeper, isRecord]
+
 /-- a poll since the last attempt / sleep (newest-first log) -/
 def PolledSince (tr : List (Req × Ans)) : Prop :=
   ∃ p2 a p1, tr = p2 ++ (Req.abortIf, a) :: p1 ∧ ∀ y ∈ p2, isOp y.1 = false ∧ isSleeper y.1 = false
 
-theorem polled_iff (cfg : Cfg) (tr : List (Req × Ans)) :
+/-- `polled` of the monitor (while no cancellation has been seen) = a poll since the last attempt / sleep -/
+theorem polled_iff (cfg : Cfg) (tr : List (Req × Ans)) (hc : (cur cfg tr).cancelled = none) :
     (cur cfg tr).polled = true ↔ PolledSince tr := by
   induction tr with
   | nil => simp [cur, PolledSince]
   | cons x tr ih =>
     obtain ⟨r, a⟩ := x
-    rw [cur_cons]
+    rw [cur_cons] at hc ⊢
+    have hc' := cancelled_none_step cfg _ _ hc
+    have ih := ih hc'
+    rw [(step_live cfg _ _ hc').2.1]
     by_cases hr : r = .abortIf
     · subst hr
-      have : (step cfg (cur cfg tr) (Req.abortIf, a)).polled = true := by
-        simp only [step]; (repeat' split) <;> simp_all
+      have : (stepLive cfg (cur cfg tr) (Req.abortIf, a)).polled = true := by
+        simp only [stepLive]; (repeat' split) <;> simp_all
       simp only [this, true_iff]
       exact ⟨[], a, tr, rfl, by simp⟩
     · by_cases ho : isOp r = true ∨ isSleeper r = true
-      · have : (step cfg (cur cfg tr) (r, a)).polled = false := by
-          cases r <;> simp_all [step, isOp, isSleeper] <;> (repeat' split) <;> simp_all
+      · have : (stepLive cfg (cur cfg tr) (r, a)).polled = false := by
+          cases r <;> simp_all [stepLive, isOp, isSleeper] <;> (repeat' split) <;> simp_all
         simp only [this, Bool.false_eq_true, false_iff]
         rintro ⟨p2, a', p1, he, hall⟩
         cases p2 with
@@ -1715,8 +2028,8 @@ theorem polled_iff (cfg : Cfg) (tr : List (Req × Ans)) :
           rw [← he.1] at this
           simp at this
           rcases ho with ho | ho <;> simp_all
-      · have hk : (step cfg (cur cfg tr) (r, a)).polled = (cur cfg tr).polled := by
-          cases r <;> simp_all [step, isOp, isSleeper] <;> (repeat' split) <;> simp_all
+      · have hk : (stepLive cfg (cur cfg tr) (r, a)).polled = (cur cfg tr).polled := by
+          cases r <;> simp_all [stepLive, isOp, isSleeper]
         rw [hk, ih]
         constructor
         · rintro ⟨p2, a', p1, he, hall⟩
@@ -1737,29 +2050,23 @@ def AbortSignal (y : Req × Ans) : Prop :=
   (y.1 = .abortIf ∧ ∃ d, y.2 = .bool true d) ∨
   (isOp y.1 = true ∧ ∃ e d, y.2 = .raise e d ∧ e.isAbort = true)
 
-theorem aborted_step (cfg : Cfg) (s : St) (x : Req × Ans) :
-    (step cfg s x).aborted = true ↔ s.aborted = true ∨ AbortSignal x := by
+theorem aborted_stepLive (cfg : Cfg) (s : St) (x : Req × Ans) :
+    (stepLive cfg s x).aborted = true ↔ s.aborted = true ∨ AbortSignal x := by
   obtain ⟨r, a⟩ := x
   unfold AbortSignal
-  cases r <;> simp [step, isOp] <;> (repeat' split) <;> simp_all
+  cases r <;> simp [stepLive, isOp] <;> (repeat' split) <;> simp_all
 
-theorem aborted_iff (cfg : Cfg) (tr : List (Req × Ans)) :
+/-- `aborted` of the monitor (while no cancellation has been seen) = some abort signal in the log -/
+theorem aborted_iff (cfg : Cfg) (tr : List (Req × Ans)) (hc : (cur cfg tr).cancelled = none) :
     (cur cfg tr).aborted = true ↔ ∃ y ∈ tr, AbortSignal y := by
   induction tr with
   | nil => simp [cur]
   | cons x tr ih =>
-    rw [cur_cons, aborted_step, ih]
+    rw [cur_cons] at hc ⊢
+    have hc' := cancelled_none_step cfg _ _ hc
+    rw [(step_live cfg _ _ hc').2.2, aborted_stepLive, ih hc']
     simp only [List.mem_cons, exists_eq_or_imp]
     exact Or.comm
-
-theorem isRecord_step (cfg : Cfg) (s : St) (x : Req × Ans) (h : isRecord x.1 = true) : step cfg s x = s := by
-  obtain ⟨r, a⟩ := x
-  cases r <;> simp_all [isRecord, step] <;> (split <;> simp_all)
-
-theorem bad_of_cancelled (cfg : Cfg) (s : St) (x : Req × Ans) (c : Exn) (hc : s.cancelled = some c)
-    (hr : isRecord x.1 = false) : (step cfg s x).bad = true := by
-  obtain ⟨r, a⟩ := x
-  cases r <;> simp_all [isRecord, step] <;> (repeat' split) <;> simp_all
 
 /-- once a cancellation has been seen, an accepted log continues with breaker bookkeeping only -/
 theorem after_cancel (cfg : Cfg) (c : Exn) (q : Trace) : ∀ s, s.cancelled = some c →
@@ -1771,22 +2078,51 @@ theorem after_cancel (cfg : Cfg) (c : Exn) (q : Trace) : ∀ s, s.cancelled = so
     intro s hc hb
     cases hr : isRecord x.1 with
     | false =>
-      have := bad_fold cfg q _ hb
-      rw [bad_of_cancelled cfg s x c hc hr] at this
-      cases this
+      have h1 := bad_fold cfg q _ hb
+      have := live_at cfg s x hr h1
+      rw [hc] at this; cases this
     | true =>
-      simp only [List.foldl_cons, isRecord_step cfg s x hr] at hb ⊢
+      simp only [List.foldl_cons, step_record cfg s x hr] at hb ⊢
       obtain ⟨h1, h2⟩ := ih s hc hb
       exact ⟨by simpa [hr] using h1, h2⟩
 
-theorem cancel_step (cfg : Cfg) (s : St) (x : Req × Ans) (e : Exn) (d : Nat)
-    (hx : isOp x.1 = true ∨ isSleeper x.1 = true) (ha : x.2 = .raise e d) (hk : e.isCancelKind = true) :
+/-- a cancellation signal: any callback other than breaker bookkeeping (which is not a callback) —
+    the operation, a sleep, the abort predicate, an attempt hook, a classifier, a strategy, a sleep
+    handler, a before-sleep hook, a metric or log hook — raised CancelledError / KeyboardInterrupt /
+    SystemExit / GeneratorExit -/
+def CancelSignal (y : Req × Ans) : Prop :=
+  isRecord y.1 = false ∧ ∃ e d, y.2 = .raise e d ∧ e.isCancelKind = true
+
+theorem cancel_step (cfg : Cfg) (s : St) (x : Req × Ans) (e : Exn) (d : Nat) (hc : s.cancelled = none)
+    (hx : isRecord x.1 = false) (ha : x.2 = .raise e d) (hk : e.isCancelKind = true) :
     (step cfg s x).cancelled = some e := by
-  obtain ⟨r, a⟩ := x
-  have hab := isCancelKind_not_abort hk
-  simp only at ha
-  subst ha
-  cases r <;> simp_all [step, isOp, isSleeper]
+  rw [step_none cfg s x hc]
+  simp [hx, ha, cancelMark, hk]
+
+theorem cancelled_step (cfg : Cfg) (s : St) (x : Req × Ans) :
+    (step cfg s x).cancelled ≠ none ↔ s.cancelled ≠ none ∨ CancelSignal x := by
+  cases hc : s.cancelled with
+  | some c => simp [step_some cfg s x c hc]
+  | none =>
+    rw [step_none cfg s x hc]
+    unfold CancelSignal
+    obtain ⟨r, a⟩ := x
+    cases hr : isRecord r with
+    | true => simp [hr, hc]
+    | false =>
+      have := stepLive_cancelled cfg s (r, a)
+      cases a <;> simp_all [cancelMark]
+      split <;> simp_all
+
+/-- `cancelled` of the monitor = some cancellation signal in the log -/
+theorem cancelled_iff (cfg : Cfg) (tr : List (Req × Ans)) :
+    (cur cfg tr).cancelled ≠ none ↔ ∃ y ∈ tr, CancelSignal y := by
+  induction tr with
+  | nil => simp [cur]
+  | cons x tr ih =>
+    rw [cur_cons, cancelled_step, ih]
+    simp only [List.mem_cons, exists_eq_or_imp]
+    exact Or.comm
 
 /-- what acceptance by the monitor means -/
 def Accepted (cfg : Cfg) (t : Trace) (r : Res) : Prop := verdict t (run cfg t) r = true
@@ -1796,15 +2132,28 @@ theorem Accepted.bad {cfg : Cfg} {t : Trace} {r : Res} (h : Accepted cfg t r) : 
   simp only [Bool.and_eq_true, Bool.not_eq_true'] at h
   exact h.1.1
 
+theorem run_cancelled_rev (cfg : Cfg) (p : Trace) : run cfg p = cur cfg p.reverse := by
+  rw [← run_reverse, List.reverse_reverse]
+
+/-- at an attempt or a sleep of an accepted log: nothing wrong, no cancellation before, and the
+    poll / abort part of the step is not `bad` -/
+theorem at_action {cfg : Cfg} {t : Trace} {r : Res} (h : Accepted cfg t r)
+    (p q : Trace) (x : Req × Ans) (ht : t = p ++ x :: q) (hx : isOp x.1 = true ∨ isSleeper x.1 = true) :
+    (run cfg p).cancelled = none ∧ (stepLive cfg (run cfg p) x).bad = false := by
+  have hb := bad_at cfg p q x (ht ▸ h.bad)
+  have hc := live_at cfg _ x (op_not_record _ hx) hb
+  exact ⟨hc, (step_live cfg _ x hc).1 ▸ hb⟩
+
 /-- **`abort_if` is consulted before every attempt**: in an accepted log, between an invocation of the
     operation and the previous invocation or sleep (or the start of the call) there is a poll. -/
 theorem poll_before_every_attempt {cfg : Cfg} {t : Trace} {r : Res} (h : Accepted cfg t r)
     (hab : cfg.abortIf = true) (p q : Trace) (x : Req × Ans) (ht : t = p ++ x :: q)
     (hx : isOp x.1 = true) : PolledSince p.reverse := by
-  have hb := bad_at cfg p q x (ht ▸ h.bad)
-  rw [← polled_iff cfg, ← run_reverse, List.reverse_reverse]
+  obtain ⟨hc, hb⟩ := at_action h p q x ht (Or.inl hx)
+  rw [run_cancelled_rev] at hc hb
+  rw [← polled_iff cfg _ hc]
   obtain ⟨rq, a⟩ := x
-  cases rq <;> simp_all [isOp, step]
+  cases rq <;> simp_all [isOp, stepLive]
   revert hb
   (repeat' split) <;> simp_all
 
@@ -1812,45 +2161,24 @@ theorem poll_before_every_attempt {cfg : Cfg} {t : Trace} {r : Res} (h : Accepte
 theorem poll_before_every_sleep {cfg : Cfg} {t : Trace} {r : Res} (h : Accepted cfg t r)
     (hab : cfg.abortIf = true) (p q : Trace) (x : Req × Ans) (ht : t = p ++ x :: q)
     (hx : isSleeper x.1 = true) : PolledSince p.reverse := by
-  have hb := bad_at cfg p q x (ht ▸ h.bad)
-  rw [← polled_iff cfg, ← run_reverse, List.reverse_reverse]
+  obtain ⟨hc, hb⟩ := at_action h p q x ht (Or.inr hx)
+  rw [run_cancelled_rev] at hc hb
+  rw [← polled_iff cfg _ hc]
   obtain ⟨rq, a⟩ := x
-  cases rq <;> simp_all [isSleeper, step]
-  revert hb
-  (repeat' split) <;> simp_all
+  cases rq <;> simp_all [isSleeper, stepLive]
 
 /-- **once aborted, the operation is not invoked again and no sleep is started** -/
 theorem nothing_after_abort {cfg : Cfg} {t : Trace} {r : Res} (h : Accepted cfg t r)
     (p q : Trace) (x : Req × Ans) (ht : t = p ++ x :: q)
     (hx : isOp x.1 = true ∨ isSleeper x.1 = true) : ¬ ∃ y ∈ p, AbortSignal y := by
-  have hb := bad_at cfg p q x (ht ▸ h.bad)
+  obtain ⟨hc, hb⟩ := at_action h p q x ht hx
+  rw [run_cancelled_rev] at hc hb
   intro hy
-  have : (run cfg p).aborted = true := by
-    rw [← List.reverse_reverse p, run_reverse, aborted_iff]
+  have : (cur cfg p.reverse).aborted = true := by
+    rw [aborted_iff cfg _ hc]
     simpa using hy
   obtain ⟨rq, a⟩ := x
-  cases rq <;> simp_all [isOp, isSleeper, step] <;> (revert hb; (repeat' split) <;> simp_all)
-
-/-- a cancellation signal: the operation or a sleep raised CancelledError / KeyboardInterrupt /
-    SystemExit / GeneratorExit -/
-def CancelSignal (y : Req × Ans) : Prop :=
-  (isOp y.1 = true ∨ isSleeper y.1 = true) ∧ ∃ e d, y.2 = .raise e d ∧ e.isCancelKind = true
-
-theorem cancelled_step (cfg : Cfg) (s : St) (x : Req × Ans) :
-    (step cfg s x).cancelled ≠ none ↔ s.cancelled ≠ none ∨ CancelSignal x := by
-  obtain ⟨r, a⟩ := x
-  unfold CancelSignal
-  cases r <;> simp [step, isOp, isSleeper] <;> (repeat' split) <;> simp_all
-  all_goals (rename_i h _ _ _; exact isAbort_not_cancelKind h)
-
-theorem cancelled_iff (cfg : Cfg) (tr : List (Req × Ans)) :
-    (cur cfg tr).cancelled ≠ none ↔ ∃ y ∈ tr, CancelSignal y := by
-  induction tr with
-  | nil => simp [cur]
-  | cons x tr ih =>
-    rw [cur_cons, cancelled_step, ih]
-    simp only [List.mem_cons, exists_eq_or_imp]
-    exact Or.comm
+  cases rq <;> simp_all [isOp, isSleeper, stepLive] <;> (revert hb; (repeat' split) <;> simp_all)
 
 /-- **…and the run ends with `AbortRetryError` or an ABORTED outcome** (unless a cancellation
     intervened, or an error raised by some other callback — a hook, the classifier — after the abort;
@@ -1861,13 +2189,14 @@ theorem abort_ends_aborted {cfg : Cfg} {t : Trace} {r : Res} (h : Accepted cfg t
     | .raised e => e.isAbort = true ∨ e = .stuck ∨ Raised t e
     | .outcome o _ => o.stop = some .aborted
     | .ret _ => False := by
-  have h1 : (run cfg t).aborted = true := by
-    rw [← List.reverse_reverse t, run_reverse, aborted_iff]
-    simpa using ha
   have h2 : (run cfg t).cancelled = none := by
     have := mt (cancelled_iff cfg t.reverse).mp (by simpa using hc)
-    rw [← List.reverse_reverse t, run_reverse]
+    rw [run_cancelled_rev]
     simpa using this
+  have h1 : (run cfg t).aborted = true := by
+    rw [run_cancelled_rev] at h2 ⊢
+    rw [aborted_iff cfg _ h2]
+    simpa using ha
   unfold Accepted verdict at h
   simp only [h1, h2, Option.isNone_none, Bool.and_self, if_true, Bool.and_eq_true] at h
   have h3 := h.2
@@ -1881,25 +2210,39 @@ theorem abort_ends_aborted {cfg : Cfg} {t : Trace} {r : Res} (h : Accepted cfg t
     · exact Or.inr (Or.inl h3)
     · exact Or.inr (Or.inr h3)
 
-/-- **CancelledError, KeyboardInterrupt, SystemExit (and GeneratorExit) raised by the operation or
-    during a sleep propagate unchanged at once**: the call raises exactly that exception, and nothing
-    follows in the log but breaker bookkeeping (no classification, no retry, no sleep, no hook, no event). -/
+/-- **A cancellation-type exception (CancelledError, KeyboardInterrupt, SystemExit, GeneratorExit)
+    raised at ANY callback — the operation, a sleep, the abort predicate, an attempt hook, a
+    classifier, a strategy, a sleep handler, a before-sleep hook, a metric or log hook: every await
+    point of an async run — propagates unchanged at once**: the call raises exactly that exception,
+    and nothing follows in the log but breaker bookkeeping (`record_cancel` of the `except` arms,
+    `ensure_settled` of the `finally`): no classification, no retry, no sleep, no hook, no event. -/
 theorem cancellation_propagates_unchanged {cfg : Cfg} {t : Trace} {r : Res} (h : Accepted cfg t r)
     (p q : Trace) (x : Req × Ans) (ht : t = p ++ x :: q) (e : Exn) (d : Nat)
-    (hx : isOp x.1 = true ∨ isSleeper x.1 = true) (ha : x.2 = .raise e d)
-    (hk : e.isCancelKind = true) :
+    (hx : isRecord x.1 = false) (ha : x.2 = .raise e d) (hk : e.isCancelKind = true) :
     r = .raised e ∧ ∀ y ∈ q, isRecord y.1 = true := by
   have hb := h.bad
+  have hb1 := bad_at cfg p q x (ht ▸ hb)
+  have hc0 := live_at cfg _ x hx hb1
   subst ht
   rw [run_append] at hb
   simp only [List.foldl_cons] at hb
-  have hc := cancel_step cfg (run cfg p) x e d hx ha hk
+  have hc := cancel_step cfg (run cfg p) x e d hc0 hx ha hk
   obtain ⟨h1, h2⟩ := after_cancel cfg e q _ hc hb
   refine ⟨?_, h1⟩
   unfold Accepted verdict at h
   rw [run_append] at h
   simp only [List.foldl_cons, h2, Bool.and_eq_true] at h
   simpa using h.1.2
+
+/-- …in particular, a second cancellation never happens in an accepted log -/
+theorem at_most_one_cancellation {cfg : Cfg} {t : Trace} {r : Res} (h : Accepted cfg t r)
+    (p q : Trace) (x : Req × Ans) (ht : t = p ++ x :: q) (hx : CancelSignal x) :
+    ¬ ∃ y ∈ q, CancelSignal y := by
+  obtain ⟨hr, e, d, ha, hk⟩ := hx
+  obtain ⟨_, h2⟩ := cancellation_propagates_unchanged h p q x ht e d hr ha hk
+  rintro ⟨y, hy, hyr, _⟩
+  rw [h2 y hy] at hyr
+  cases hyr
 
 
 /-- every run of the model is accepted: the conjuncts above apply to it -/
@@ -1922,24 +2265,43 @@ example : Accepted { abortIf := true } sampleLog (.ret 42) ∧
     sampleLog = sampleLog.take 5 ++ (.sleeper .dflt 7, .unit 7) :: sampleLog.drop 6 := by
   refine ⟨by decide, rfl, rfl⟩
 
-/-- non-vacuity: abort signals and cancellation signals exist and occur in accepted logs -/
+/-- the context a before-sleep hook sees in the samples below -/
+def sampleCtx : BackoffCtx :=
+  { attempt := 1, klass := .transient, retryAfter := none, prev := none, remaining := 50, cause := .exception }
+
+/-- non-vacuity: abort signals and cancellation signals (at the operation, and at an async
+    `before_sleep` hook) exist and occur in accepted logs -/
 example :
     Accepted { abortIf := true } [(.abortIf, .bool true 0)] (.raised .libAbort) ∧
     AbortSignal (.abortIf, .bool true 0) ∧
     Accepted { abortIf := true }
       [(.abortIf, .bool false 0), (.op 1, .raise .keyboardInterrupt 0), (.breakerCancel, .recorded none .closed)]
       (.raised .keyboardInterrupt) ∧
-    CancelSignal (.op 1, .raise .keyboardInterrupt 0) := by
-  refine ⟨by decide, Or.inl ⟨rfl, 0, rfl⟩, by decide, ⟨Or.inl rfl, _, _, rfl, rfl⟩⟩
+    CancelSignal (.op 1, .raise .keyboardInterrupt 0) ∧
+    Accepted {}
+      [(.op 1, .raise (.ordinary 1 .transient) 0), (.classify "o1", .klass ⟨.transient, none⟩ 0),
+       (.beforeSleep .call sampleCtx 3, .raise .cancelled 0), (.breakerCancel, .recorded none .closed)]
+      (.raised .cancelled) ∧
+    CancelSignal (.beforeSleep .call sampleCtx 3, .raise .cancelled 0) := by
+  refine ⟨by decide, Or.inl ⟨rfl, 0, rfl⟩, by decide, ⟨rfl, _, _, rfl, rfl⟩, by decide, ⟨rfl, _, _, rfl, rfl⟩⟩
 
 /-- the monitor has teeth: an attempt without a poll, an attempt after an abort, a swallowed
-    cancellation and a retried one are all rejected -/
+    cancellation, a retried one, and — the seeded defect — a `CancelledError` delivered inside an async
+    `before_sleep` hook that is swallowed (the sleep starts, the operation is retried) are all rejected -/
 example :
     ¬ Accepted { abortIf := true } [(.op 1, .value 1 0)] (.ret 1) ∧
     ¬ Accepted { abortIf := true } [(.abortIf, .bool true 0), (.op 1, .value 1 0)] (.ret 1) ∧
     ¬ Accepted {} [(.op 1, .raise .cancelled 0)] (.ret 1) ∧
     ¬ Accepted {} [(.op 1, .raise .cancelled 0), (.classify "cancelled", .klass ⟨.unknown, none⟩ 0)]
-        (.raised .cancelled) := by
-  refine ⟨by decide, by decide, by decide, by decide⟩
+        (.raised .cancelled) ∧
+    ¬ Accepted {}
+      [(.op 1, .raise (.ordinary 1 .transient) 0), (.classify "o1", .klass ⟨.transient, none⟩ 0),
+       (.beforeSleep .call sampleCtx 3, .raise .cancelled 0), (.sleeper .dflt 3, .unit 3), (.op 2, .value 7 0)]
+      (.ret 7) ∧
+    ¬ Accepted {}
+      [(.op 1, .raise (.ordinary 1 .transient) 0), (.classify "o1", .klass ⟨.transient, none⟩ 0),
+       (.metric .retry 1 3 {}, .raise .keyboardInterrupt 0), (.sleeper .dflt 3, .unit 3)]
+      (.raised .keyboardInterrupt) := by
+  refine ⟨by decide, by decide, by decide, by decide, by decide, by decide⟩
 
 end Redress.Props.C13
